@@ -1,12 +1,22 @@
 #!/usr/bin/env python3
 """Translator (part G of the tie): re-reads the anchored Rust sources of /repo and
-rewrites coq/Gen/Generated.v with every literal / table the Coq models depend on.
+rewrites coq/Gen/Generated.v with every literal / table / structural fact the Coq models depend on.
 
-Deliberately limited to literals, one `match` table and one enum. If something can
-no longer be located the generated file contains a definition that makes the
-side lemmas in Gen/Facts*.v fail (value `missing_N` = 999999999 or an
-unknown constructor), and the list of problems is printed as JSON on stdout;
-it never crashes the check.
+Design (see DESIGN.md 3.1):
+ * a small Rust lexer gives, for every source file, three aligned views of identical length:
+   `raw`, `text` (comments blanked) and `code` (comments blanked, contents of string / char literals
+   masked) -- structure is searched in `code`, literals are read from `text` at the same offsets;
+   `#[cfg(test)] mod` blocks are blanked, and the main view also blanks everything under
+   `#[cfg(anytls_rs_verif)]` (hook code is examined separately where a fact is about it);
+ * a constant-expression evaluator (integers, casts, `T::MAX`, named consts resolved through the same
+   file, `use` paths and all of src/, `Duration::from_secs/millis`, local `let` bindings);
+ * structural facts are located by what the code DOES (calls, fields, comparisons in canonical
+   orientation), inside function bodies in which calls to private helpers of the same file are expanded
+   one level deep; facts that are about ORDER are still computed from order.
+If an item can no longer be located the generated file contains a value that makes the side lemmas in
+Gen/Facts*.v fail (`missing_N` = 999999999, `false`, an empty list, an unknown constructor) and a problem
+`{"msg", "file", "names"}` naming the generated definitions it affects is printed as JSON on stdout
+(`{"problems": [...], "changed": bool}`); it never crashes the check.
 """
 import json, os, re, sys
 
@@ -15,53 +25,869 @@ OUT = os.environ.get("VERIF_GEN_OUT") or os.path.join(os.path.dirname(os.path.ab
 
 problems = []
 
-def src(rel):
-    try:
-        with open(os.path.join(REPO, rel), encoding="utf-8") as f:
-            return f.read()
-    except OSError as e:
-        problems.append(f"{rel}: cannot read ({e})")
-        return ""
 
-def strip_comments(s):
-    s = re.sub(r"//[^\n]*", "", s)
-    return s
+def problem(msg, rel, names):
+    problems.append({"msg": f"{rel}: {msg}" if rel else msg, "file": rel or "", "names": sorted(set(names))})
 
-def eval_int(expr):
-    expr = expr.strip().replace("_", "")
-    expr = re.sub(r"(?<=[0-9a-fA-F])(u8|u16|u32|u64|usize|i32|i64)\b", "", expr)
-    if not re.fullmatch(r"[0-9xXa-fA-F\s\*\+\-\(\)]+", expr):
-        raise ValueError(expr)
-    return int(eval(expr, {"__builtins__": {}}, {}))
 
-def const_int(text, name, rel, ty=r"[A-Za-z0-9_]+"):
-    m = re.search(r"const\s+%s\s*:\s*%s\s*=\s*([^;]+);" % (re.escape(name), ty), text)
+# ======================================================================================== lexer / views
+_INT_TYPES = {"u8": (8, False), "u16": (16, False), "u32": (32, False), "u64": (64, False), "u128": (128, False),
+              "usize": (64, False), "i8": (8, True), "i16": (16, True), "i32": (32, True), "i64": (64, True),
+              "i128": (128, True), "isize": (64, True)}
+
+
+def lex(raw):
+    """-> (text, code): comments blanked in both; in `code` the inside of string and char literals is `~`."""
+    n = len(raw)
+    text, code = list(raw), list(raw)
+    i = 0
+
+    def blank(a, b, both=True):
+        for k in range(a, b):
+            if raw[k] != "\n":
+                code[k] = " " if both else "~"
+                if both:
+                    text[k] = " "
+    while i < n:
+        c = raw[i]
+        if c == "/" and raw.startswith("//", i):
+            j = raw.find("\n", i)
+            j = n if j < 0 else j
+            blank(i, j)
+            i = j
+        elif c == "/" and raw.startswith("/*", i):
+            depth, j = 1, i + 2
+            while j < n and depth:
+                if raw.startswith("/*", j):
+                    depth, j = depth + 1, j + 2
+                elif raw.startswith("*/", j):
+                    depth, j = depth - 1, j + 2
+                else:
+                    j += 1
+            blank(i, j)
+            i = j
+        elif c == '"':
+            j = i + 1
+            while j < n and raw[j] != '"':
+                j += 2 if raw[j] == "\\" else 1
+            blank(i + 1, min(j, n), both=False)
+            i = j + 1
+        elif c == "r" and re.match(r'r#*"', raw[i:i + 12]) and (i == 0 or not (raw[i - 1].isalnum() or raw[i - 1] == "_") or raw[i - 1] == "b"):
+            m = re.match(r'r(#*)"', raw[i:])
+            close = '"' + m.group(1)
+            j = raw.find(close, i + m.end())
+            j = n if j < 0 else j
+            blank(i + m.end(), j, both=False)
+            i = j + len(close)
+        elif c == "'":
+            if i + 1 < n and raw[i + 1] == "\\":
+                j = raw.find("'", i + 3)
+                j = n if j < 0 else j
+                blank(i + 1, j, both=False)
+                i = j + 1
+            elif i + 2 < n and raw[i + 2] == "'":
+                blank(i + 1, i + 2, both=False)
+                i += 3
+            else:
+                i += 1          # lifetime
+        else:
+            i += 1
+    return "".join(text), "".join(code)
+
+
+def match_close(code, i):
+    """index of the bracket closing the one at code[i] ('(', '[' or '{'); -1 if unbalanced"""
+    pairs = {"(": ")", "[": "]", "{": "}"}
+    depth = 0
+    for j in range(i, len(code)):
+        ch = code[j]
+        if ch in "([{":
+            depth += 1
+        elif ch in ")]}":
+            depth -= 1
+            if depth == 0:
+                return j if pairs[code[i]] == ch else -1
+    return -1
+
+
+def _blank_regions(s, regions):
+    if not regions:
+        return s
+    a = list(s)
+    for x, y in regions:
+        for k in range(x, min(y, len(a))):
+            if a[k] != "\n":
+                a[k] = " "
+    return "".join(a)
+
+
+def _attr_item_end(code, i):
+    """end (exclusive) of the item / statement / field that starts at code[i] (just after an attribute)"""
+    n = len(code)
+    while i < n and code[i].isspace():
+        i += 1
+    while code.startswith("#[", i):                      # further attributes
+        j = match_close(code, i + 1)
+        i = j + 1 if j > 0 else i + 2
+        while i < n and code[i].isspace():
+            i += 1
+    head = re.match(r"(?:pub(?:\([^)]*\))?\s+)?(?:async\s+|unsafe\s+|const\s+(?=fn))*(fn|mod|impl|struct|enum|trait)\b", code[i:])
+    blocklike = bool(head) or code.startswith("{", i)
+    depth, j = 0, i
+    while j < n:
+        ch = code[j]
+        if ch in "([":
+            depth += 1
+        elif ch in ")]":
+            if depth == 0:
+                return j
+            depth -= 1
+        elif ch == "{":
+            k = match_close(code, j)
+            if k < 0:
+                return n
+            if depth == 0 and blocklike:
+                return k + 1
+            j = k
+        elif ch == "}" and depth == 0:
+            return j
+        elif ch in ";," and depth == 0:
+            return j + 1
+        j += 1
+    return n
+
+
+class Src:
+    """One Rust source file: aligned views. `.code/.text` = without tests; `.mcode/.mtext` = also without hook code."""
+    def __init__(self, rel):
+        self.rel = rel
+        self.ok = True
+        try:
+            with open(os.path.join(REPO, rel), encoding="utf-8") as f:
+                self.raw = f.read()
+        except OSError as e:
+            self.raw, self.ok, self.err = "", False, str(e)
+        text, code = lex(self.raw)
+        reg = []
+        for m in re.finditer(r"#\[cfg\(test\)\]", code):
+            e = _attr_item_end(code, m.end())
+            if re.match(r"\s*(?:pub\s+)?mod\b", code[m.end():]):
+                reg.append((m.start(), e))
+        self.text, self.code = _blank_regions(text, reg), _blank_regions(code, reg)
+        reg = []
+        for m in re.finditer(r"#\[cfg\(anytls_rs_verif\)\]", self.code):
+            reg.append((m.start(), _attr_item_end(self.code, m.end())))
+        self.mtext, self.mcode = _blank_regions(self.text, reg), _blank_regions(self.code, reg)
+        self._consts = None
+
+    # -- const / static items of the file: name -> (type text, value text)
+    def consts(self):
+        if self._consts is None:
+            d = {}
+            for m in re.finditer(r"\b(?:const|static)\s+(?:mut\s+)?([A-Za-z_][A-Za-z0-9_]*)\s*:", self.code):
+                i, depth, eq = m.end(), 0, -1
+                while i < len(self.code):
+                    ch = self.code[i]
+                    if ch in "([{":
+                        depth += 1
+                    elif ch in ")]}":
+                        depth -= 1
+                        if depth < 0:
+                            break
+                    elif ch == "=" and depth == 0 and eq < 0 and self.code[i + 1] not in "=>" and self.code[i - 1] not in "=!<>":
+                        eq = i
+                    elif ch == ";" and depth == 0:
+                        break
+                    i += 1
+                if eq > 0 and i < len(self.code) and self.code[i] == ";":
+                    d.setdefault(m.group(1), (self.text[m.end():eq].strip(), self.text[eq + 1:i].strip()))
+            self._consts = d
+        return self._consts
+
+
+class V:
+    """a window on aligned (code, text) strings; all searching in .code, literals from .text"""
+    def __init__(self, code, text, src=None):
+        self.code, self.text, self.src = code, text, src
+
+    def __bool__(self):
+        return bool(self.code.strip())
+
+    def sub(self, a, b=None):
+        return V(self.code[a:b], self.text[a:b], self.src)
+
+    def search(self, rx, pos=0, flags=0):
+        return re.compile(rx, flags).search(self.code, pos)
+
+    def finditer(self, rx, flags=0):
+        return re.finditer(rx, self.code, flags)
+
+    def find(self, s, pos=0):
+        return self.code.find(s, pos)
+
+
+EMPTY = V("", "")
+_SRCS = {}
+
+
+def S(rel):
+    if rel not in _SRCS:
+        _SRCS[rel] = Src(rel)
+    return _SRCS[rel]
+
+
+def all_src_files():
+    out = []
+    for d, _, fs in os.walk(os.path.join(REPO, "src")):
+        for f in sorted(fs):
+            if f.endswith(".rs"):
+                out.append(os.path.relpath(os.path.join(d, f), REPO))
+    return sorted(out)
+
+
+# ---------------------------------------------------------------------------------------- functions
+_TRAIT_METHODS = {"from", "default", "drop", "fmt", "clone", "poll_read", "poll_write", "poll_flush", "poll_shutdown",
+                  "decode", "encode", "deref", "next", "eq", "hash", "new", "main"}
+
+
+def fn_spans(code, name=None):
+    """[(name, start_of_fn_keyword, body_open, body_close, is_pub)] for every fn with a body"""
+    out = []
+    for m in re.finditer(r"\bfn\s+(%s)\b" % (re.escape(name) if name else r"[A-Za-z_][A-Za-z0-9_]*"), code):
+        i, depth, ang = m.end(), 0, 0
+        body = -1
+        while i < len(code):
+            ch = code[i]
+            if ch in "([":
+                depth += 1
+            elif ch in ")]":
+                depth -= 1
+                if depth < 0:
+                    break
+            elif ch == ";" and depth == 0:
+                break
+            elif ch == "{" and depth == 0:
+                body = i
+                break
+            i += 1
+        if body < 0:
+            continue
+        close = match_close(code, body)
+        if close < 0:
+            continue
+        pre = code[max(0, m.start() - 40):m.start()]
+        pm = re.search(r"(pub(?:\([^)]*\))?)?\s*(?:(?:async|unsafe|const|extern\s+\"[^\"]*\")\s+)*$", pre)
+        is_pub = bool(pm and pm.group(1) == "pub")
+        out.append((m.group(1), m.start(), body, close, is_pub))
+    return out
+
+
+def fn_view(src, name, main=True, inline=True, within=None):
+    """V of function `name` (signature + body) in file `src`; calls to private helpers of the same file are expanded
+    one level deep (the helper's body is inserted, in braces, just before the call). `within` = (a, b) restricts the search."""
+    code, text = (src.mcode, src.mtext) if main else (src.code, src.text)
+    spans = fn_spans(code, name)
+    if within:
+        spans = [s for s in spans if within[0] <= s[1] < within[1]]
+    if not spans:
+        return EMPTY
+    _, a, bo, bc, _ = spans[0]
+    v = V(code[a:bc + 1], text[a:bc + 1], src)
+    return inline_helpers(v, src, exclude={name}, body_from=bo - a) if inline else v
+
+
+def inline_helpers(v, src, exclude=(), body_from=0):
+    helpers = {}
+    for nm, a, bo, bc, is_pub in fn_spans(src.mcode):
+        if not is_pub and nm not in _TRAIT_METHODS and nm not in exclude and not nm.startswith("verif_"):
+            helpers.setdefault(nm, (bo, bc))
+    if not helpers:
+        return v
+    ins = []
+    for m in re.finditer(r"(?<![A-Za-z0-9_])((?:Self\s*::\s*|self\s*\.\s*)?)(%s)\s*\(" % "|".join(map(re.escape, helpers)), v.code):
+        if m.start() < body_from:
+            continue
+        before = v.code[:m.start()].rstrip()
+        if before.endswith(".") or before.endswith("::") or re.search(r"\bfn$", before):
+            continue
+        ins.append((m.start(), helpers[m.group(2)]))
+    if not ins:
+        return v
+    code, text, last = [], [], 0
+    for pos, (bo, bc) in ins:
+        code += [v.code[last:pos], " ", src.mcode[bo:bc + 1], " "]
+        text += [v.text[last:pos], " ", src.mtext[bo:bc + 1], " "]
+        last = pos
+    code.append(v.code[last:])
+    text.append(v.text[last:])
+    return V("".join(code), "".join(text), src)
+
+
+def block_after(v, rx, pos=0):
+    """V of the `{...}` block that follows the first match of rx (the match must end just before / at the `{`)"""
+    m = v.search(rx, pos)
     if not m:
-        problems.append(f"{rel}: constant {name} not found")
-        return None
+        return EMPTY, -1
+    i = v.code.find("{", m.end() - 1)
+    if i < 0:
+        return EMPTY, -1
+    j = match_close(v.code, i)
+    if j < 0:
+        return EMPTY, -1
+    return v.sub(i, j + 1), i
+
+
+def split_top(s, seps):
+    """split s at the given separators where bracket depth is 0 (turbofish `::<..>` skipped); -> [(piece, offset)]"""
+    out, depth, i, last = [], 0, 0, 0
+    while i < len(s):
+        ch = s[i]
+        if ch in "([{":
+            depth += 1
+        elif ch in ")]}":
+            depth -= 1
+        elif depth == 0:
+            for sp in seps:
+                if s.startswith(sp, i):
+                    out.append((s[last:i], last))
+                    i += len(sp) - 1
+                    last = i + 1
+                    break
+        i += 1
+    out.append((s[last:], last))
+    return out
+
+
+def call_args(v, open_paren):
+    """argument texts (from .text) of the call whose '(' is at open_paren"""
+    j = match_close(v.code, open_paren)
+    if j < 0:
+        return []
+    inner_code, inner_text = v.code[open_paren + 1:j], v.text[open_paren + 1:j]
+    return [inner_text[o:o + len(p)].strip() for p, o in split_top(inner_code, [","]) if p.strip()]
+
+
+# ======================================================================================== constant expressions
+class Dur:
+    def __init__(self, ms):
+        self.ms = ms
+
+
+class NotConst(Exception):
+    pass
+
+
+_TOK = re.compile(r"\s*(?:(0x[0-9a-fA-F_]+|0b[01_]+|0o[0-7_]+|[0-9][0-9_]*)(?:_?(u8|u16|u32|u64|u128|usize|i8|i16|i32|i64|i128|isize))?(?![A-Za-z0-9_.]|\.[0-9])"
+                  r"|([A-Za-z_][A-Za-z0-9_]*(?:\s*::\s*[A-Za-z_][A-Za-z0-9_]*)*)|(<<|>>|[-+*/%()|&^,.]))")
+
+
+def _tokens(expr):
+    out, i = [], 0
+    expr = expr.strip()
+    while i < len(expr):
+        m = _TOK.match(expr, i)
+        if not m or m.end() == i:
+            raise NotConst(expr)
+        if m.group(1) is not None:
+            out.append(("num", int(m.group(1).replace("_", ""), 0), m.group(2)))
+        elif m.group(3) is not None:
+            out.append(("id", re.sub(r"\s+", "", m.group(3)), None))
+        else:
+            out.append(("op", m.group(4), None))
+        i = m.end()
+    return out
+
+
+def _wrap(v, ty):
+    bits, signed = _INT_TYPES[ty]
+    v &= (1 << bits) - 1
+    if signed and v >> (bits - 1):
+        v -= 1 << bits
+    return v
+
+
+def _module_files(path_segs, rel):
+    """candidate files for a module path such as ['crate','protocol','frame'] / ['super'] / ['frame'] seen in file rel"""
+    segs = [s for s in path_segs if s not in ("self",)]
+    here = os.path.dirname(rel)
+    if segs and segs[0] == "crate":
+        base, segs = "src", segs[1:]
+    elif segs and segs[0] == "super":
+        base = os.path.dirname(here) if os.path.basename(rel) == "mod.rs" else here
+        segs = segs[1:]
+        while segs and segs[0] == "super":
+            base, segs = os.path.dirname(base), segs[1:]
+    elif segs and segs[0] in ("anytls_rs",):
+        base, segs = "src", segs[1:]
+    else:
+        base = here
+    cands = []
+    for k in range(len(segs), -1, -1):          # longest prefix that is a module file; the rest may be re-exports
+        p = os.path.join(base, *segs[:k]) if k else base
+        cands += [p + ".rs", os.path.join(p, "mod.rs")]
+        if k == 0:
+            cands += [os.path.join(base, "lib.rs")]
+    return [c for c in cands if os.path.isfile(os.path.join(REPO, c))]
+
+
+class Evaluator:
+    def __init__(self):
+        self.depth = 0
+
+    # ---- name resolution
+    def _candidates(self, name, quals, rel):
+        quals = [q for q in quals if q != "Self"]
+        src = S(rel)
+        seen = []
+        if not quals and name in src.consts():
+            return [rel]
+        if quals:
+            seen += _module_files(quals, rel)
+        else:
+            for m in re.finditer(r"\buse\s+([^;]+);", src.code):
+                u = re.sub(r"\s+", "", m.group(1))
+                if re.search(r"(?<![A-Za-z0-9_])%s(?![A-Za-z0-9_])" % re.escape(name), u) or u.endswith("*"):
+                    prefix = re.split(r"::\{|::\*|::%s\b" % re.escape(name), u)[0]
+                    seen += _module_files(prefix.split("::"), rel)
+        hits = [f for f in dict.fromkeys(seen) if name in S(f).consts()]
+        if hits:
+            return hits[:1]
+        return [f for f in all_src_files() if name in S(f).consts()]
+
+    def lookup(self, name, quals, rel, env, want):
+        if not quals and env is not None and name in env:
+            e = env[name]
+            env2 = dict(env)
+            del env2[name]                       # a shadowing `let x = f(x)` refers to the earlier binding: not followed
+            return self.ev(e, rel, env2, want)
+        files = self._candidates(name, quals, rel)
+        if not files:
+            raise NotConst("unknown name " + name)
+        vals = []
+        for f in files:
+            vals.append(self.ev(S(f).consts()[name][1], f, None, want))
+        key = lambda v: ("d", v.ms) if isinstance(v, Dur) else ("v", v)
+        if len({key(v) for v in vals}) != 1:
+            raise NotConst("ambiguous name %s (defined in %s)" % (name, ", ".join(files)))
+        return vals[0]
+
+    # ---- evaluation
+    def ev(self, expr, rel, env=None, want=None):
+        self.depth += 1
+        try:
+            if self.depth > 12:
+                raise NotConst("too deep: " + expr)
+            if want in ("str", "bytes"):
+                return self._str(expr.strip(), rel, env)
+            toks = _tokens(expr)
+            self.t, self.i, self.rel, self.env = toks, 0, rel, env
+            v = self._bin(0)
+            if self.i != len(self.t):
+                raise NotConst(expr)
+            return v
+        finally:
+            self.depth -= 1
+
+    def _str(self, e, rel, env):
+        m = re.fullmatch(r'(b?)r(#*)"(.*)"\2', e, re.S)
+        if m:
+            return m.group(3).encode()
+        m = re.fullmatch(r'(b?)"((?:[^"\\]|\\.)*)"', e, re.S)
+        if m:
+            s = re.sub(r"\\\n\s*", "", m.group(2))
+            s = re.sub(r"\\u\{([0-9a-fA-F]+)\}", lambda k: chr(int(k.group(1), 16)), s)
+            out, i = bytearray(), 0
+            esc = {"n": 10, "r": 13, "t": 9, "0": 0, "\\": 92, '"': 34, "'": 39}
+            while i < len(s):
+                if s[i] == "\\" and i + 1 < len(s):
+                    if s[i + 1] == "x":
+                        out.append(int(s[i + 2:i + 4], 16))
+                        i += 4
+                    else:
+                        out.append(esc[s[i + 1]])
+                        i += 2
+                else:
+                    out += s[i].encode()
+                    i += 1
+            return bytes(out)
+        m = re.fullmatch(r"&?\s*([A-Za-z_][A-Za-z0-9_]*(?:\s*::\s*[A-Za-z_][A-Za-z0-9_]*)*)", e)
+        if m:
+            segs = re.sub(r"\s+", "", m.group(1)).split("::")
+            return self.lookup(segs[-1], segs[:-1], rel, env, "str")
+        raise NotConst("not a string constant: " + e)
+
+    _PREC = [["|"], ["^"], ["&"], ["<<", ">>"], ["+", "-"], ["*", "/", "%"]]
+
+    def _peek(self):
+        return self.t[self.i] if self.i < len(self.t) else (None, None, None)
+
+    def _bin(self, lvl):
+        if lvl == len(self._PREC):
+            return self._cast()
+        v = self._bin(lvl + 1)
+        while self._peek()[0] == "op" and self._peek()[1] in self._PREC[lvl]:
+            op = self._peek()[1]
+            self.i += 1
+            w = self._bin(lvl + 1)
+            v = self._apply(op, v, w)
+        return v
+
+    @staticmethod
+    def _apply(op, a, b):
+        if isinstance(a, Dur) or isinstance(b, Dur):
+            if op == "+" and isinstance(a, Dur) and isinstance(b, Dur):
+                return Dur(a.ms + b.ms)
+            if op == "*" and isinstance(a, Dur) != isinstance(b, Dur):
+                return Dur((a.ms if isinstance(a, Dur) else a) * (b.ms if isinstance(b, Dur) else b))
+            if op == "/" and isinstance(a, Dur) and not isinstance(b, Dur) and b and a.ms % b == 0:
+                return Dur(a.ms // b)
+            raise NotConst("duration arithmetic")
+        if isinstance(a, bool) or isinstance(b, bool):
+            raise NotConst("bool arithmetic")
+        if op in "/%" and b == 0:
+            raise NotConst("division by zero")
+        if op == "/":
+            q = abs(a) // abs(b)
+            return q if (a >= 0) == (b >= 0) else -q
+        if op == "%":
+            r = abs(a) % abs(b)
+            return r if a >= 0 else -r
+        return {"|": a | b, "^": a ^ b, "&": a & b, "<<": a << b if 0 <= b < 256 else 0, ">>": a >> b if b >= 0 else 0,
+                "+": a + b, "-": a - b, "*": a * b}[op]
+
+    def _cast(self):
+        v = self._unary()
+        while self._peek() == ("id", "as", None):
+            ty = self.t[self.i + 1] if self.i + 1 < len(self.t) else (None, None, None)
+            if ty[0] != "id" or ty[1] not in _INT_TYPES or isinstance(v, (Dur, bool)):
+                raise NotConst("cast")
+            v = _wrap(v, ty[1])
+            self.i += 2
+        return v
+
+    def _unary(self):
+        if self._peek() == ("op", "-", None):
+            self.i += 1
+            v = self._unary()
+            if isinstance(v, (Dur, bool)):
+                raise NotConst("negation")
+            return -v
+        return self._postfix()
+
+    def _args(self):
+        """after '(' consumed: parse comma separated expressions up to ')'"""
+        out = []
+        while self._peek() != ("op", ")", None):
+            out.append(self._bin(0))
+            if self._peek() == ("op", ",", None):
+                self.i += 1
+            elif self._peek() != ("op", ")", None):
+                raise NotConst("args")
+        self.i += 1
+        return out
+
+    def _postfix(self):
+        v = self._atom()
+        while self._peek() == ("op", ".", None):
+            nm = self.t[self.i + 1] if self.i + 1 < len(self.t) else (None, None, None)
+            if nm[0] != "id" or self.t[self.i + 2:self.i + 3] != [("op", "(", None)]:
+                raise NotConst("method")
+            self.i += 3
+            a = self._args()
+            m = nm[1]
+            if isinstance(v, Dur):
+                if m == "as_secs" and not a:
+                    v = v.ms // 1000
+                elif m == "as_millis" and not a:
+                    v = v.ms
+                else:
+                    raise NotConst("duration method " + m)
+            elif m in ("min", "max") and len(a) == 1 and not isinstance(a[0], Dur):
+                v = min(v, a[0]) if m == "min" else max(v, a[0])
+            elif m == "pow" and len(a) == 1 and 0 <= a[0] < 256:
+                v = v ** a[0]
+            elif m in ("wrapping_add", "saturating_add", "checked_add") and len(a) == 1:
+                v = v + a[0]
+            else:
+                raise NotConst("method " + m)
+        return v
+
+    def _atom(self):
+        k, val, suf = self._peek()
+        if k == "num":
+            self.i += 1
+            return val
+        if k == "op" and val == "(":
+            self.i += 1
+            v = self._bin(0)
+            if self._peek() != ("op", ")", None):
+                raise NotConst("paren")
+            self.i += 1
+            return v
+        if k != "id":
+            raise NotConst("atom")
+        self.i += 1
+        segs = val.split("::")
+        is_call = self._peek() == ("op", "(", None)
+        if val in ("true", "false") and not is_call:
+            return val == "true"
+        if len(segs) >= 2 and segs[-2] in _INT_TYPES and not is_call:
+            bits, signed = _INT_TYPES[segs[-2]]
+            if segs[-1] == "MAX":
+                return (1 << (bits - 1)) - 1 if signed else (1 << bits) - 1
+            if segs[-1] == "MIN":
+                return -(1 << (bits - 1)) if signed else 0
+            if segs[-1] == "BITS":
+                return bits
+            raise NotConst(val)
+        if is_call:
+            self.i += 1
+            a = self._args()
+            if len(segs) >= 2 and segs[-2] == "Duration" and len(a) == 1 and not isinstance(a[0], (Dur, bool)):
+                if segs[-1] == "from_secs":
+                    return Dur(a[0] * 1000)
+                if segs[-1] == "from_millis":
+                    return Dur(a[0])
+                if segs[-1] == "from_mins":
+                    return Dur(a[0] * 60000)
+            if len(segs) >= 2 and segs[-2] in _INT_TYPES and segs[-1] == "from" and len(a) == 1 and not isinstance(a[0], (Dur, bool)):
+                return a[0]
+            raise NotConst("call " + val)
+        # a named constant: save the parser state, evaluate its definition, restore
+        st = (self.t, self.i, self.rel, self.env)
+        try:
+            return self.lookup(segs[-1], segs[:-1], self.rel, self.env, None)
+        finally:
+            self.t, self.i, self.rel, self.env = st
+
+
+EV = Evaluator()
+
+
+def ev_int(expr, rel, env=None):
+    v = EV.ev(expr, rel, env)
+    if isinstance(v, (Dur, bool)):
+        raise NotConst("not an integer: " + expr)
+    return v
+
+
+def ev_ms(expr, rel, env=None):
+    v = EV.ev(expr, rel, env)
+    if not isinstance(v, Dur):
+        raise NotConst("not a Duration: " + expr)
+    return v.ms
+
+
+def ev_bool(expr, rel, env=None):
+    v = EV.ev(expr, rel, env)
+    if not isinstance(v, bool):
+        raise NotConst("not a bool: " + expr)
+    return v
+
+
+def ev_bytes(expr, rel, env=None):
+    return EV.ev(expr, rel, env, "str")
+
+
+def try_ev(f, *a):
     try:
-        return eval_int(m.group(1))
-    except Exception:
-        problems.append(f"{rel}: constant {name} has non-literal value {m.group(1)!r}")
+        return f(*a)
+    except (NotConst, RecursionError, KeyError, ValueError, IndexError):
         return None
 
-def const_duration_ms(text, name, rel):
-    m = re.search(r"const\s+%s\s*:\s*Duration\s*=\s*Duration::from_(secs|millis)\(([^)]+)\)" % re.escape(name), text)
-    if not m:
-        problems.append(f"{rel}: duration {name} not found")
+
+def local_env(v):
+    """immutable `let name[: ty] = expr;` bindings of a function body: name -> expr text (first binding wins)"""
+    env = {}
+    for m in v.finditer(r"\blet\s+([a-z_][A-Za-z0-9_]*)\s*(?::\s*[^=;]+?)?=(?!=)"):
+        i, depth = m.end(), 0
+        while i < len(v.code):
+            ch = v.code[i]
+            if ch in "([{":
+                depth += 1
+            elif ch in ")]}":
+                depth -= 1
+                if depth < 0:
+                    break
+            elif ch == ";" and depth == 0:
+                break
+            i += 1
+        if i < len(v.code) and v.code[i] == ";":
+            env.setdefault(m.group(1), v.text[m.end():i].strip())
+    return env
+
+
+def resolve_text(e, env, n=4):
+    """follow plain renamings `let a = b.c.d;` : text of an operand with local names replaced by what they are bound to"""
+    e = squash(e)
+    while n and re.fullmatch(r"[a-z_][A-Za-z0-9_]*", e) and e in env:
+        nxt = squash(env[e])
+        if nxt == e:
+            break
+        e, n = nxt, n - 1
+    return e
+
+
+def const_named(name, rel, kind):
+    """value of the const `name` as seen from file rel (same file, use paths, anywhere under src/); None if not evaluable"""
+    f = {"int": ev_int, "ms": ev_ms, "bytes": ev_bytes, "bool": ev_bool}[kind]
+    return try_ev(f, name, rel)
+
+
+# ======================================================================================== comparisons, `if` statements
+FLIP = {"<": ">", ">": "<", "<=": ">=", ">=": "<=", "==": "==", "!=": "!="}
+NEG = {"<": ">=", ">=": "<", ">": "<=", "<=": ">", "==": "!=", "!=": "=="}
+_CMP = {"<": 0, "<=": 1, ">": 2, ">=": 3}
+
+
+def squash(s):
+    """remove white space except between two word characters (`x as usize` stays, `a\n  .b` -> `a.b`)"""
+    return re.sub(r"(?<![A-Za-z0-9_]) | (?![A-Za-z0-9_])", "", re.sub(r"\s+", " ", s.strip()))
+
+
+def parse_cmp(piece):
+    """`A op B` (one top-level comparison; `!(A op B)` is un-negated) -> (A, op, B) with whitespace removed, or None"""
+    s = piece.strip()
+    neg = False
+    m = re.fullmatch(r"!\s*\((.*)\)", s, re.S)
+    if m and match_close(s, s.find("(")) == len(s) - 1:
+        s, neg = m.group(1), True
+    found, depth, i = [], 0, 0
+    while i < len(s):
+        ch = s[i]
+        if ch in "([{":
+            depth += 1
+        elif ch in ")]}":
+            depth -= 1
+        elif depth == 0:
+            if s.startswith("::<", i):
+                d, j = 0, i + 2
+                while j < len(s):
+                    d += s[j] == "<"
+                    d -= s[j] == ">"
+                    j += 1
+                    if d == 0:
+                        break
+                i = j
+                continue
+            two = s[i:i + 2]
+            if two in ("->", "=>", "<<", ">>", "&&", "||"):
+                i += 2
+                continue
+            if two in ("<=", ">=", "==", "!="):
+                found.append((i, two))
+                i += 2
+                continue
+            if ch in "<>":
+                found.append((i, ch))
+        i += 1
+    if len(found) != 1:
         return None
-    v = eval_int(m.group(2))
-    return v * 1000 if m.group(1) == "secs" else v
+    i, op = found[0]
+    a, b = squash(s[:i]), squash(s[i + len(op):])
+    if not a or not b:
+        return None
+    return (a, NEG[op] if neg else op, b)
+
+
+def iter_ifs(v):
+    """every `if` / `else if` / `while` with a block: (cond V, block V, position of the keyword). `if let` parts of a
+    condition are kept in the cond text (callers split on && / ||)."""
+    out = []
+    for m in v.finditer(r"\b(if|while)\b"):
+        i, depth = m.end(), 0
+        blk = -1
+        while i < len(v.code):
+            ch = v.code[i]
+            if ch in "([":
+                depth += 1
+            elif ch in ")]":
+                depth -= 1
+                if depth < 0:
+                    break
+            elif depth == 0 and (ch == ";" or v.code.startswith("=>", i)):
+                break
+            elif ch == "{" and depth == 0:
+                blk = i
+                break
+            i += 1
+        if blk < 0:
+            continue
+        j = match_close(v.code, blk)
+        if j < 0:
+            continue
+        out.append((v.sub(m.end(), blk), v.sub(blk, j + 1), m.start()))
+    return out
+
+
+def cond_cmps(cond):
+    """comparisons of a condition split at top-level || and && : [(A, op, B)]; also whether it is a pure disjunction"""
+    pieces = split_top(cond.code, ["||", "&&"])
+    pure_or = "&&" not in "".join(cond.code[o + len(p):o + len(p) + 2] for p, o in pieces[:-1])
+    out = []
+    for p, o in pieces:
+        c = parse_cmp(cond.text[o:o + len(p)] if "~" in p else p)
+        if c:
+            out.append(c)
+    return out, pure_or, len(pieces)
+
+
+def orient(c, is_left):
+    """put the operand satisfying is_left on the left: -> (left, op, right) or None"""
+    a, op, b = c
+    if is_left(a) and not is_left(b):
+        return (a, op, b)
+    if is_left(b) and not is_left(a):
+        return (b, FLIP[op], a)
+    return None
+
+
+# ======================================================================================== output
+lines = []
+defined = {}            # generated name -> files it was computed from (for problems about unreadable files)
+MISSING_Z = "999999999%Z"
+
+
+def emit(s=""):
+    lines.append(s)
+
+
+def define(name, ty, val, files):
+    emit(f"Definition {name} : {ty} := {val}.")
+    defined[name] = list(files)
+
 
 def coq_bytes(bs):
     return "[" + "; ".join(str(b) for b in bs) + "]"
 
+
 def N(v):
     return "missing_N" if v is None else f"{v}"
 
-lines = []
-def emit(s=""):
-    lines.append(s)
+
+def _bool(v):
+    return "true" if v else "false"
+
+
+def item(rel, specs, fn, files=None):
+    """run one translator item. specs = [(name, coq type, fallback value text)] in output order; fn() returns
+    {name: value text} (absent / None -> fallback + it must have reported a problem). Never raises."""
+    files = files or [rel]
+    names = [s[0] for s in specs]
+    before = len(problems)
+    try:
+        vals = fn() or {}
+    except Exception as e:       # noqa: a translator bug or a shape nobody thought of: the item is missing, not the run
+        vals = {}
+        problem(f"translator error in item {names[0]}: {e!r}", rel, names)
+    for name, ty, fb in specs:
+        v = vals.get(name)
+        if v is None:
+            v = fb
+            if not any(name in p["names"] for p in problems[before:]):
+                problem(f"{name} could not be located", rel, [name])
+        define(name, ty, v, files)
+
 
 emit("(* GENERATED by tools/gen_constants.py from the Rust sources of /repo -- do not edit. *)")
 emit("From Coq Require Import List NArith ZArith.")
@@ -71,536 +897,1304 @@ emit("Open Scope N_scope.")
 emit("Definition missing_N : N := 999999999.")
 emit()
 
+
+def const_item(rel, gen_name, rust_name, kind, ty="N"):
+    """one generated definition = the value of one named Rust const"""
+    def run():
+        v = const_named(rust_name, rel, kind)
+        if v is None:
+            where = [f for f in all_src_files() if rust_name in S(f).consts()]
+            problem(f"constant {rust_name} " + ("has a value the translator cannot evaluate: %r" % S(where[0]).consts()[rust_name][1] if where else "not found"), rel, [gen_name])
+            return {}
+        if kind == "bytes":
+            return {gen_name: coq_bytes(v)}
+        if ty == "Z":
+            return {gen_name: f"{v}%Z"}
+        if v < 0:
+            problem(f"constant {rust_name} is negative", rel, [gen_name])
+            return {}
+        return {gen_name: str(v)}
+    fb = {"N": "missing_N", "Z": "missing_N%Z", "list N": "[]"}[ty]
+    item(rel, [(gen_name, ty, fb)], run)
+
+
 # ---------------------------------------------------------------- frame.rs
 rel = "src/protocol/frame.rs"
-t = strip_comments(src(rel))
 emit(f"(* {rel} *)")
-emit(f"Definition header_size : N := {N(const_int(t, 'HEADER_OVERHEAD_SIZE', rel))}.")
-# enum discriminants
-m = re.search(r"pub\s+enum\s+Command\s*\{([^}]*)\}", t)
-disc = []
-if m:
-    for name, val in re.findall(r"([A-Za-z]+)\s*=\s*([0-9xXa-fA-F_]+)", m.group(1)):
-        disc.append((eval_int(val), name))
-else:
-    problems.append(f"{rel}: enum Command not found")
-emit("Definition cmd_disc : list (N * cmd) := [" + "; ".join(f"({v}, {n})" for v, n in disc) + "].")
-# From<u8> table
-m = re.search(r"impl\s+From<u8>\s+for\s+Command\s*\{.*?match\s+value\s*\{(.*?)\}\s*\}\s*\}", t, re.S)
-table, default = [], None
-if m:
-    for lhs, rhs in re.findall(r"([0-9xXa-fA-F_|\s\.=]+|_)\s*=>\s*Command::([A-Za-z]+)", m.group(1)):
-        lhs = lhs.strip()
-        if lhs == "_":
-            default = rhs
+const_item(rel, "header_size", "HEADER_OVERHEAD_SIZE", "int")
+
+
+def _cmd_disc():
+    s = S(rel)
+    blk, _ = block_after(V(s.mcode, s.mtext, s), r"\benum\s+Command\s*\{")
+    if not blk:
+        problem("enum Command not found", rel, ["cmd_disc"])
+        return {}
+    disc, nxt = [], 0
+    for p, o in split_top(blk.code[1:-1], [","]):
+        p = re.sub(r"#\[[^\]]*\]", "", p).strip()
+        if not p:
             continue
-        for alt in lhs.split("|"):
+        m = re.fullmatch(r"([A-Za-z_][A-Za-z0-9_]*)\s*(?:=\s*(.+))?", p, re.S)
+        if not m:
+            problem(f"enum Command: variant {p!r} not understood", rel, ["cmd_disc"])
+            return {}
+        if m.group(2):
+            v = try_ev(ev_int, m.group(2), rel)
+            if v is None:
+                problem(f"enum Command: discriminant {m.group(2)!r} not evaluable", rel, ["cmd_disc"])
+                return {}
+            nxt = v
+        disc.append((nxt, m.group(1)))
+        nxt += 1
+    disc.sort(key=lambda x: x[0])
+    return {"cmd_disc": "[" + "; ".join(f"({v}, {n})" for v, n in disc) + "]"}
+
+
+item(rel, [("cmd_disc", "list (N * cmd)", "[]")], _cmd_disc)
+
+
+def match_arms(v, open_brace):
+    """arms of the match whose `{` is at open_brace: [(pattern text, rhs text)]"""
+    close = match_close(v.code, open_brace)
+    inner = v.code[open_brace + 1:close]
+    arms, i, n = [], 0, len(inner)
+    while i < n:
+        j, depth = i, 0
+        while j < n and not (depth == 0 and inner.startswith("=>", j)):
+            depth += inner[j] in "([{"
+            depth -= inner[j] in ")]}"
+            j += 1
+        if j >= n:
+            break
+        pat = inner[i:j].strip()
+        k = j + 2
+        while k < n and inner[k].isspace():
+            k += 1
+        if k < n and inner[k] == "{":
+            e = match_close(inner, k)
+            rhs = inner[k + 1:e]
+            k = e + 1
+            while k < n and (inner[k].isspace() or inner[k] == ","):
+                k += 1
+        else:
+            e, depth = k, 0
+            while e < n and not (depth == 0 and inner[e] == ","):
+                depth += inner[e] in "([{"
+                depth -= inner[e] in ")]}"
+                e += 1
+            rhs = inner[k:e]
+            k = e + 1
+        arms.append((pat, rhs.strip()))
+        i = k
+    return arms
+
+
+def _cmd_table():
+    names = ["cmd_table", "cmd_default"]
+    s = S(rel)
+    m = re.search(r"\bimpl\s+From\s*<\s*u8\s*>\s+for\s+Command\s*\{", s.mcode)
+    if not m:
+        problem("impl From<u8> for Command not found", rel, names)
+        return {"cmd_default": "MissingDefaultArm"}
+    end = match_close(s.mcode, m.end() - 1)
+    f = fn_view(s, "from", within=(m.start(), end))
+    pm = re.search(r"\bfn\s+from\s*\(\s*(?:mut\s+)?([A-Za-z_][A-Za-z0-9_]*)\s*:", f.code)
+    mm = None
+    for cand in f.finditer(r"\bmatch\s+([A-Za-z_][A-Za-z0-9_]*)\s*\{"):
+        mm = mm or cand
+    if not pm or not mm:
+        problem("impl From<u8> for Command is no longer one `match` over the byte", rel, names)
+        return {"cmd_default": "MissingDefaultArm"}
+    table, default, bad = {}, None, False
+    for pat, rhs in match_arms(f, mm.end() - 1):
+        r = re.fullmatch(r"(?:Command|Self)\s*::\s*([A-Za-z_][A-Za-z0-9_]*)", rhs)
+        if not r or re.search(r"\bif\b", pat):
+            problem(f"cannot translate match arm `{pat} => {rhs}`", rel, names)
+            bad = True
+            continue
+        for alt, _ in split_top(pat, ["|"]):
             alt = alt.strip()
-            rm = re.fullmatch(r"([0-9xXa-fA-F_]+)\s*\.\.=\s*([0-9xXa-fA-F_]+)", alt)
-            if rm:
-                for v in range(eval_int(rm.group(1)), eval_int(rm.group(2)) + 1):
-                    table.append((v, rhs))
-            else:
-                try:
-                    table.append((eval_int(alt), rhs))
-                except Exception:
-                    problems.append(f"{rel}: cannot translate match arm {alt!r}")
-else:
-    problems.append(f"{rel}: impl From<u8> for Command not found")
-if default is None:
-    problems.append(f"{rel}: no default arm in From<u8> for Command")
-    default = "MissingDefaultArm"
-emit("Definition cmd_table : list (N * cmd) := [" + "; ".join(f"({v}, {n})" for v, n in table) + "].")
-emit(f"Definition cmd_default : cmd := {default}.")
+            if alt == "_" or re.fullmatch(r"[a-z_][a-z0-9_]*", alt):
+                default = default or r.group(1)
+                continue
+            if default is not None:
+                continue                       # unreachable: behind the catch-all
+            rm = re.fullmatch(r"(.+?)\.\.(=?)(.+)", alt)
+            try:
+                if rm:
+                    lo, hi = ev_int(rm.group(1), rel), ev_int(rm.group(3), rel)
+                    vals = range(lo, hi + (1 if rm.group(2) else 0))
+                else:
+                    vals = [ev_int(alt, rel)]
+            except (NotConst, RecursionError):
+                problem(f"cannot translate match pattern {alt!r}", rel, names)
+                bad = True
+                continue
+            for v in vals:
+                table.setdefault(v, r.group(1))    # first match wins
+    if default is None:
+        problem("no default arm in From<u8> for Command", rel, names)
+        default = "MissingDefaultArm"
+    out = {"cmd_default": default}
+    if not bad:
+        out["cmd_table"] = "[" + "; ".join(f"({v}, {n})" for v, n in sorted(table.items())) + "]"
+    return out
+
+
+item(rel, [("cmd_table", "list (N * cmd)", "[]"), ("cmd_default", "cmd", "MissingDefaultArm")], _cmd_table)
 emit()
 
 # ---------------------------------------------------------------- codec.rs : oversize guard
 rel = "src/protocol/codec.rs"
-t = strip_comments(src(rel))
-t = t[t.find("impl Encoder<Frame>"):] if "impl Encoder<Frame>" in t else ""
-t = t[:t.find("#[cfg(test)]")] if "#[cfg(test)]" in t else t
-m = re.search(r"data_len\s*>\s*([A-Za-z0-9_:]+(?:\s+as\s+usize)?)", t)
-guard = None
-if m:
-    g = m.group(1).replace(" ", "")
-    if g.startswith("u16::MAX"):
-        guard = 65535
-    else:
-        try:
-            guard = eval_int(m.group(1))
-        except Exception:
-            problems.append(f"{rel}: oversize guard {m.group(1)!r} not understood")
-else:
-    problems.append(f"{rel}: encoder has no `data_len > ...` guard")
+
+
+def _encode_guard():
+    s = S(rel)
+    m = re.search(r"\bimpl\s+Encoder\s*<\s*Frame\s*>\s+for\s+\w+\s*\{", s.mcode)
+    if not m:
+        problem("impl Encoder<Frame> not found", rel, ["encode_max_payload"])
+        return {}
+    f = fn_view(s, "encode", within=(m.start(), match_close(s.mcode, m.end() - 1)))
+    env = local_env(f)
+    first_put = f.search(r"\.\s*(?:put_\w+|put|extend_from_slice|extend)\s*\(")
+    for cond, blk, pos in iter_ifs(f):
+        cs, _, npieces = cond_cmps(cond)
+        if npieces != 1 or len(cs) != 1 or not re.match(r"\{\s*return\s+Err\b", blk.code):
+            continue
+        a, op, b = cs[0]
+        va, vb = try_ev(ev_int, a, rel, env), try_ev(ev_int, b, rel, env)
+        if (va is None) == (vb is None):
+            continue
+        length, lim, op = (a, vb, op) if va is None else (b, va, FLIP[op])
+        if ".len()" not in resolve_text(length, env) and ".len()" not in length:
+            continue
+        if first_put and first_put.start() < pos:
+            problem("the oversize guard of encode comes after bytes were already appended", rel, ["encode_max_payload"])
+            return {}
+        if op == ">":
+            return {"encode_max_payload": str(lim)}
+        if op == ">=":
+            return {"encode_max_payload": str(lim - 1)}
+    problem("encoder has no `if payload_len > <const> { return Err(..) }` guard before the header is written", rel, ["encode_max_payload"])
+    return {}
+
+
 emit(f"(* {rel} *)")
-emit(f"Definition encode_max_payload : N := {N(guard)}.")
+item(rel, [("encode_max_payload", "N", "missing_N")], _encode_guard)
 emit()
 
 # ---------------------------------------------------------------- padding
 rel = "src/padding/mod.rs"
-t = strip_comments(src(rel))
-m = re.search(r"const\s+CHECK_MARK\s*:\s*i32\s*=\s*(-?\s*[0-9]+)", t)
 emit(f"(* {rel} *)")
-if m:
-    emit(f"Definition check_mark : Z := ({m.group(1).replace(' ', '')})%Z.")
-else:
-    problems.append(f"{rel}: CHECK_MARK not found")
-    emit("Definition check_mark : Z := 999999999%Z.")
+
+
+def _check_mark():
+    v = const_named("CHECK_MARK", rel, "int")
+    if v is None:
+        problem("CHECK_MARK not found", rel, ["check_mark"])
+        return {}
+    return {"check_mark": f"({v})%Z"}
+
+
+item(rel, [("check_mark", "Z", MISSING_Z)], _check_mark)
 rel = "src/padding/factory.rs"
-t = src(rel)
-m = re.search(r'DEFAULT_PADDING_SCHEME\s*:\s*&str\s*=\s*r#"(.*?)"#', t, re.S)
-if m:
+
+
+def _default_scheme():
+    v = const_named("DEFAULT_PADDING_SCHEME", rel, "bytes")
+    if v is None:
+        problem("DEFAULT_PADDING_SCHEME not found", rel, ["default_scheme"])
+        return {}
     emit(f"(* {rel} *)")
-    emit("Definition default_scheme : list N := " + coq_bytes(m.group(1).encode()) + ".")
-else:
-    problems.append(f"{rel}: DEFAULT_PADDING_SCHEME not found")
-    emit("Definition default_scheme : list N := [].")
+    return {"default_scheme": coq_bytes(v)}
+
+
+item(rel, [("default_scheme", "list N", "[]")], _default_scheme)
 emit()
 
 # ---------------------------------------------------------------- udp
 for rel, nm in (("src/client/udp_client.rs", "udp_max_client"), ("src/server/udp_proxy.rs", "udp_max_server")):
-    t = strip_comments(src(rel))
     emit(f"(* {rel} *)")
-    emit(f"Definition {nm} : N := {N(const_int(t, 'MAX_UDP_PACKET_SIZE', rel))}.")
-t = src("src/client/udp_client.rs")
-m = re.search(r'UDP_OVER_TCP_MAGIC_ADDR\s*:\s*&str\s*=\s*"([^"]*)"', t)
-if m:
-    emit("Definition udp_magic_addr : list N := " + coq_bytes(m.group(1).encode()) + ".")
-else:
-    problems.append("src/client/udp_client.rs: UDP_OVER_TCP_MAGIC_ADDR not found")
-    emit("Definition udp_magic_addr : list N := [].")
-t = src("src/server/handler.rs")
-m = re.search(r'destination\.addr\.contains\("([^"]*)"\)', t)
-if m:
-    emit("Definition udp_magic_infix : list N := " + coq_bytes(m.group(1).encode()) + ".")
-else:
-    problems.append("src/server/handler.rs: udp magic test not found")
-    emit("Definition udp_magic_infix : list N := [].")
+    const_item(rel, nm, "MAX_UDP_PACKET_SIZE", "int")
+const_item("src/client/udp_client.rs", "udp_magic_addr", "UDP_OVER_TCP_MAGIC_ADDR", "bytes", "list N")
+rel = "src/server/handler.rs"
+
+
+def _magic_infix():
+    s = S(rel)
+    v = V(s.mcode, s.mtext, s)
+    for m in v.finditer(r"\.\s*addr\s*\.\s*contains\s*\("):
+        a = call_args(v, m.end() - 1)
+        b = try_ev(ev_bytes, a[0], rel) if len(a) == 1 else None
+        if b is not None:
+            return {"udp_magic_infix": coq_bytes(b)}
+    problem("udp magic test (`<destination>.addr.contains(<string constant>)`) not found", rel, ["udp_magic_infix"])
+    return {}
+
+
+item(rel, [("udp_magic_infix", "list N", "[]")], _magic_infix)
 emit()
 
 # ---------------------------------------------------------------- http
 rel = "src/client/http_proxy.rs"
-t = strip_comments(src(rel))
 emit(f"(* {rel} *)")
-emit(f"Definition http_max_header : N := {N(const_int(t, 'MAX_HEADER_SIZE', rel))}.")
-m = re.search(r'HEADER_TERMINATOR\s*:\s*&\[u8\]\s*=\s*b"([^"]*)"', t)
-if m:
-    term = m.group(1).encode().decode("unicode_escape").encode("latin1")
-    emit("Definition http_terminator : list N := " + coq_bytes(term) + ".")
-else:
-    problems.append(f"{rel}: HEADER_TERMINATOR not found")
-    emit("Definition http_terminator : list N := [].")
-m = re.search(r"let\s+mut\s+tmp\s*=\s*\[0u8;\s*([0-9_]+)\]", t)
-emit(f"Definition http_read_chunk : N := {N(eval_int(m.group(1)) if m else None)}.")
-if not m:
-    problems.append(f"{rel}: read chunk size not found")
-# (package http) default ports of determine_target and the status codes of the proxy's own replies
-for _name, _rx in [("http_default_port_http", r"let\s+mut\s+port\s*=\s*([0-9_]+)u16\s*;"),
-                   ("http_default_port_https", r'starts_with\("https:[^\n]*\n\s*port\s*=\s*([0-9_]+)\s*;'),
-                   ("http_default_port_connect", r"split_host_port\(\s*target\s*,\s*([0-9_]+)\s*\)"),
-                   ("http_reply_connect_ok", r'b"HTTP/1\.1 ([0-9]+) Connection Established'),
-                   ("http_reply_open_failed", r"send_http_error\(\s*&mut\s+client_conn\s*,\s*([0-9_]+)\s*,")]:
-    m = re.search(_rx, t)
-    emit(f"Definition {_name} : N := {N(eval_int(m.group(1)) if m else None)}.")
-    if not m:
-        problems.append(f"{rel}: {_name} not found")
+const_item(rel, "http_max_header", "MAX_HEADER_SIZE", "int")
+const_item(rel, "http_terminator", "HEADER_TERMINATOR", "bytes", "list N")
+
+
+def _http_chunk():
+    f = fn_view(S(rel), "read_http_header")
+    env = local_env(f)
+    for m in f.finditer(r"\blet\s+mut\s+\w+\s*(?::[^=;]+)?=\s*\[\s*0(?:u8)?\s*;([^\]]+)\]"):
+        v = try_ev(ev_int, f.text[m.start(1):m.end(1)], rel, env)
+        if v is not None:
+            return {"http_read_chunk": str(v)}
+    problem("read chunk size (`let mut <buf> = [0u8; <const>]` in read_http_header) not found", rel, ["http_read_chunk"])
+    return {}
+
+
+item(rel, [("http_read_chunk", "N", "missing_N")], _http_chunk)
+
+
+def _http_ports():
+    names = ["http_default_port_http", "http_default_port_https", "http_default_port_connect"]
+    f = fn_view(S(rel), "determine_target")
+    out = {}
+    if not f:
+        problem("determine_target not found", rel, names)
+        return out
+    env = local_env(f)
+    calls = [(m.start(), call_args(f, m.end() - 1)) for m in f.finditer(r"\bsplit_host_port\s*\(") if not re.search(r"\bfn\s*$", f.code[:m.start()])]
+    # CONNECT: the call inside the `if <method>.eq_ignore_ascii_case("CONNECT") {` block
+    cblk, cpos = EMPTY, -1
+    for cond, blk, pos in iter_ifs(f):
+        if "eq_ignore_ascii_case" in cond.code and '"CONNECT"' in cond.text:
+            cblk, cpos = blk, f.code.find(blk.code, pos)
+            break
+    port_var = None
+    for pos, args in calls:
+        if len(args) != 2:
+            continue
+        inside = cpos >= 0 and cpos <= pos < cpos + len(cblk.code)
+        v = try_ev(ev_int, args[1], rel, env)
+        if inside and v is not None:
+            out.setdefault("http_default_port_connect", str(v))
+        elif not inside and re.fullmatch(r"[a-z_][A-Za-z0-9_]*", args[1]):
+            port_var = args[1]
+    if "http_default_port_connect" not in out:
+        problem("default port of CONNECT (`split_host_port(target, <const>)` in the CONNECT branch) not found", rel, names[2:])
+    if not port_var:
+        problem("the port variable handed to split_host_port not found", rel, names[:2])
+        return out
+    m = f.search(r"\blet\s+mut\s+%s\s*(?::\s*\w+\s*)?=\s*([^;]+);" % re.escape(port_var))
+    v = try_ev(ev_int, f.text[m.start(1):m.end(1)], rel, env) if m else None
+    if v is not None:
+        out["http_default_port_http"] = str(v)
+    else:
+        problem(f"initial value of `{port_var}` in determine_target not found", rel, names[:1])
+    for cond, blk, pos in iter_ifs(f):
+        cm = re.fullmatch(r"\s*[\w.]+\s*\.\s*starts_with\s*\(\s*\"~*\"\s*\)\s*", cond.code)
+        if cm and '"https://"' in cond.text:
+            am = blk.search(r"\b%s\s*=\s*([^;=][^;]*);" % re.escape(port_var))
+            v = try_ev(ev_int, blk.text[am.start(1):am.end(1)], rel, env) if am else None
+            if v is not None:
+                out["http_default_port_https"] = str(v)
+                break
+    if "http_default_port_https" not in out:
+        problem(f"`{port_var} = <const>` under `starts_with(\"https://\")` not found", rel, names[1:2])
+    return out
+
+
+item(rel, [("http_default_port_http", "N", "missing_N"), ("http_default_port_https", "N", "missing_N"),
+           ("http_default_port_connect", "N", "missing_N")], _http_ports)
+
+
+def _http_replies():
+    s = S(rel)
+    out = {}
+    m = re.search(r'b"HTTP/1\.[01] ([0-9]{3}) Connection [Ee]stablished', s.mtext)
+    if m:
+        out["http_reply_connect_ok"] = str(int(m.group(1)))
+    else:
+        problem("reply to CONNECT (`HTTP/1.1 <code> Connection Established`) not found", rel, ["http_reply_connect_ok"])
+    v = V(s.mcode, s.mtext, s)
+    for m in v.finditer(r"\bsend_http_error\s*\("):
+        if re.search(r"\bfn\s*$", v.code[:m.start()]):
+            continue
+        a = call_args(v, m.end() - 1)
+        f = None
+        for nm, fa, bo, bc, _ in fn_spans(s.mcode):
+            if fa <= m.start() <= bc:
+                f = v.sub(fa, bc + 1)
+        c = try_ev(ev_int, a[1], rel, local_env(f) if f else None) if len(a) >= 2 else None
+        if c is not None:
+            out["http_reply_open_failed"] = str(c)
+            break
+    if "http_reply_open_failed" not in out:
+        problem("status code of the proxy's own error reply (`send_http_error(conn, <const>, ..)`) not found", rel, ["http_reply_open_failed"])
+    return out
+
+
+item(rel, [("http_reply_connect_ok", "N", "missing_N"), ("http_reply_open_failed", "N", "missing_N")], _http_replies)
 emit()
 
 # ---------------------------------------------------------------- socks5
 rel = "src/client/socks5.rs"
-t = strip_comments(src(rel))
 emit(f"(* {rel} *)")
 for nm in ("SOCKS5_VERSION", "AUTH_NO_AUTHENTICATION", "AUTH_NOT_ACCEPTABLE", "CMD_CONNECT",
            "ATYP_IPV4", "ATYP_DOMAIN", "ATYP_IPV6", "REPLY_SUCCEEDED", "REPLY_GENERAL_FAILURE",
            "REPLY_COMMAND_NOT_SUPPORTED"):
-    emit(f"Definition socks_{nm.lower()} : N := {N(const_int(t, nm, rel))}.")
+    const_item(rel, f"socks_{nm.lower()}", nm, "int")
 emit()
 
 # ---------------------------------------------------------------- timeouts, dns, pool
 rel = "src/util/dns_cache.rs"
-t = strip_comments(src(rel))
 emit(f"(* {rel} *)")
-emit(f"Definition dns_ttl_ms : Z := {N(const_duration_ms(t, 'DEFAULT_TTL', rel))}%Z.")
-emit(f"Definition dns_timeout_ms : Z := {N(const_duration_ms(t, 'DNS_TIMEOUT', rel))}%Z.")
+const_item(rel, "dns_ttl_ms", "DEFAULT_TTL", "ms", "Z")
+const_item(rel, "dns_timeout_ms", "DNS_TIMEOUT", "ms", "Z")
 rel = "src/client/client.rs"
-t = strip_comments(src(rel))
 emit(f"(* {rel} *)")
-emit(f"Definition synack_timeout_ms : Z := {N(const_duration_ms(t, 'DEFAULT_SYNACK_TIMEOUT', rel))}%Z.")
-rel = "src/server/handler.rs"
-t = strip_comments(src(rel))
-m = re.search(r"let\s+connect_timeout\s*=\s*Duration::from_secs\(([0-9_]+)\)", t)
-emit(f"(* {rel} *)")
-emit(f"Definition connect_timeout_ms : Z := {N(eval_int(m.group(1)) * 1000 if m else None)}%Z.")
-if not m:
-    problems.append(f"{rel}: connect timeout not found")
-rel = "src/session/session.rs"
-t = strip_comments(src(rel))
-m = re.search(r"time::timeout\(Duration::from_secs\(([0-9_]+)\),\s*writer\.shutdown\(\)\)", t)
-emit(f"(* {rel} *)")
-emit(f"Definition close_shutdown_timeout_ms : Z := {N(eval_int(m.group(1)) * 1000 if m else None)}%Z.")
-if not m:
-    problems.append(f"{rel}: shutdown timeout not found")
+const_item(rel, "synack_timeout_ms", "DEFAULT_SYNACK_TIMEOUT", "ms", "Z")
 
-def ctor_field(body, field):
-    m = re.search(field + r"\s*:\s*(?:Arc::new\()?(?:std::sync::atomic::)?(?:Atomic[A-Za-z0-9]+::new\()?\s*([A-Za-z0-9_]+)", body)
-    return m.group(1) if m else None
+
+def enclosing_fn(s, pos, main=True):
+    code, text = (s.mcode, s.mtext) if main else (s.code, s.text)
+    best = None
+    for nm, a, bo, bc, _ in fn_spans(code):
+        if a <= pos <= bc and (best is None or a > best[0]):
+            best = (a, bc)
+    return V(code[best[0]:best[1] + 1], text[best[0]:best[1] + 1], s) if best else V(code, text, s)
+
+
+def timeout_of(rel, what_rx, gen_name, descr, prefer_fn=None):
+    """first argument (a Duration) of the `timeout(..)` call whose later argument matches what_rx"""
+    def run():
+        s = S(rel)
+        v = V(s.mcode, s.mtext, s)
+        hits = []
+        for m in v.finditer(r"\btimeout\s*\("):
+            a = call_args(v, m.end() - 1)
+            if len(a) >= 2 and re.search(what_rx, re.sub(r"\s+", "", a[1])):
+                f = enclosing_fn(s, m.start())
+                ms = try_ev(ev_ms, a[0], rel, local_env(f))
+                if ms is not None:
+                    hits.append((0 if (prefer_fn and re.match(r"fn\s+%s\b" % prefer_fn, f.code)) else 1, m.start(), ms))
+        if not hits:
+            problem(descr + " not found", rel, [gen_name])
+            return {}
+        return {gen_name: f"{sorted(hits)[0][2]}%Z"}
+    item(rel, [(gen_name, "Z", "missing_N%Z")], run)
+
+
+rel = "src/server/handler.rs"
+emit(f"(* {rel} *)")
+timeout_of(rel, r"TcpStream::connect\(", "connect_timeout_ms", "connect timeout (`timeout(<Duration>, TcpStream::connect(..))`)")
+rel = "src/session/session.rs"
+emit(f"(* {rel} *)")
+timeout_of(rel, r"\.shutdown\(\)", "close_shutdown_timeout_ms", "shutdown timeout (`timeout(<Duration>, writer.shutdown())`)", prefer_fn="close")
+
+
+def field_expr(v, field, env=None):
+    """text of the value given to `field` in a struct literal inside v (`field: expr,` or shorthand `field,` via env)"""
+    m = v.search(r"(?<![A-Za-z0-9_.])%s\s*:(?!:)" % re.escape(field))
+    if m:
+        i, depth = m.end(), 0
+        while i < len(v.code):
+            ch = v.code[i]
+            if ch in "([{":
+                depth += 1
+            elif ch in ")]}":
+                depth -= 1
+                if depth < 0:
+                    break
+            elif ch == "," and depth == 0:
+                break
+            i += 1
+        return v.text[m.end():i].strip()
+    if env and v.search(r"[{,]\s*%s\s*[,}]" % re.escape(field)) and field in env:
+        return env[field]
+    return None
+
+
+def unwrap_ctor(e):
+    """Arc::new(AtomicU32::new(1)) -> 1"""
+    while True:
+        m = re.fullmatch(r"(?:[A-Za-z_][A-Za-z0-9_]*\s*::\s*)*(?:Arc|Atomic[A-Za-z0-9]+|Mutex|RwLock)\s*::\s*new\s*\((.*)\)", e.strip(), re.S)
+        if not m:
+            return e.strip()
+        e = m.group(1)
+
+
+def _ctor(role, fn):
+    def run():
+        names = [f"{role}_first_stream_id", f"{role}_pkt_start", f"{role}_send_padding"]
+        f = fn_view(S(rel), fn)
+        if not f:
+            problem(f"constructor {fn} not found", rel, names)
+            return {}
+        env = local_env(f)
+        out = {}
+        for name, field, evf in ((names[0], "stream_id", ev_int), (names[1], "pkt_counter", ev_int), (names[2], "send_padding", ev_bool)):
+            e = field_expr(f, field, env)
+            v = try_ev(evf, unwrap_ctor(e), rel, env) if e is not None else None
+            if v is None:
+                problem(f"{fn}.{field} is not a constant ({e!r})", rel, [name])
+            else:
+                out[name] = _bool(v) if evf is ev_bool else str(v)
+        return out
+    item(rel, [(f"{role}_first_stream_id", "N", "missing_N"), (f"{role}_pkt_start", "N", "missing_N"),
+               (f"{role}_send_padding", "bool", "missing_bool")], run)
+
 
 for role, fn in (("client", "new_client"), ("server", "new_server")):
-    m = re.search(r"pub fn %s<R, W>.*?\n    \}\n" % fn, t, re.S)
-    body = m.group(0) if m else ""
-    if not m:
-        problems.append(f"{rel}: constructor {fn} not found")
-    sid = ctor_field(body, "stream_id")
-    pkt = ctor_field(body, "pkt_counter")
-    sp = ctor_field(body, "send_padding")
-    emit(f"Definition {role}_first_stream_id : N := {N(eval_int(sid) if sid and sid.isdigit() else None)}.")
-    emit(f"Definition {role}_pkt_start : N := {N(eval_int(pkt) if pkt and pkt.isdigit() else None)}.")
-    emit(f"Definition {role}_send_padding : bool := {sp if sp in ('true', 'false') else 'missing_bool'}.")
-    if sp not in ("true", "false"):
-        problems.append(f"{rel}: {fn}.send_padding not a literal")
-# start_client: the settings frame is queued (buffering on) before any task is spawned
-m = re.search(r"pub async fn start_client\(self: Arc<Self>\).*?\n    \}\n", t, re.S)
-body = m.group(0) if m else ""
-i_buf = body.find("self.buffering")
-i_set = body.find("self.write_frame(frame)")
-i_spawn = body.find("tokio::spawn")
-ok = m is not None and 0 <= i_buf < i_set and (i_spawn < 0 or i_set < i_spawn)
-if not m:
-    problems.append(f"{rel}: start_client not found")
-emit(f"Definition start_settings_before_spawn : bool := {'true' if ok else 'false'}.")
+    _ctor(role, fn)
+
+
+def settings_frame_pos(f):
+    """position where the client Settings frame is handed to write_frame (-1 if not found); position of its construction"""
+    mk = f.search(r"\bFrame\s*::\s*with_data\s*\(\s*Command\s*::\s*Settings\b")
+    if not mk:
+        return -1, -1
+    lm = None
+    for m in f.finditer(r"\blet\s+(?:mut\s+)?([a-z_][A-Za-z0-9_]*)\s*(?::[^=;]+)?=\s*"):
+        if m.end() == mk.start():
+            lm = m
+    if lm:
+        w = f.search(r"\.\s*write_frame\s*\(\s*%s\s*\)" % re.escape(lm.group(1)), mk.end())
+        if not w:       # handed to a private helper (expanded in place, parameter renamed): the first frame write after it is built
+            w = f.search(r"\.\s*write_(?:control_)?frame\s*\(", mk.end())
+        return (w.start() if w else -1), mk.start()
+    before = f.code[:mk.start()].rstrip()
+    if re.search(r"\.\s*write_frame\s*\($", before):
+        return mk.start(), mk.start()
+    return -1, mk.start()
+
+
+def _start_order():
+    # start_client: the settings frame is queued (buffering on) before any task is spawned
+    f = fn_view(S(rel), "start_client")
+    if not f:
+        problem("start_client not found", rel, ["start_settings_before_spawn"])
+        return {"start_settings_before_spawn": "false"}
+    i_buf = f.search(r"\bbuffering\s*\.\s*store\s*\(\s*true\b")
+    i_set, _ = settings_frame_pos(f)
+    i_spawn = f.search(r"\bspawn\s*\(")
+    ok = bool(i_buf) and 0 <= i_buf.start() < i_set and (not i_spawn or i_set < i_spawn.start())
+    return {"start_settings_before_spawn": _bool(ok)}
+
+
+item(rel, [("start_settings_before_spawn", "bool", "false")], _start_order)
 emit()
 rel = "src/client/session_pool.rs"
-t = strip_comments(src(rel))
-m = re.search(r"impl Default for SessionPoolConfig.*?check_interval:\s*Duration::from_secs\(([0-9_]+)\).*?idle_timeout:\s*Duration::from_secs\(([0-9_]+)\).*?min_idle_sessions:\s*([0-9_]+)", t, re.S)
 emit(f"(* {rel} *)")
-if m:
-    emit(f"Definition pool_default_interval_ms : Z := {eval_int(m.group(1)) * 1000}%Z.")
-    emit(f"Definition pool_default_timeout_ms : Z := {eval_int(m.group(2)) * 1000}%Z.")
-    emit(f"Definition pool_default_min_idle : N := {eval_int(m.group(3))}.")
-else:
-    problems.append(f"{rel}: SessionPoolConfig::default not found")
-    emit("Definition pool_default_interval_ms : Z := 999999999%Z.")
-    emit("Definition pool_default_timeout_ms : Z := 999999999%Z.")
-    emit("Definition pool_default_min_idle : N := missing_N.")
+
+
+def impl_default_body(s, ty):
+    m = re.search(r"\bimpl\s+Default\s+for\s+%s\s*\{" % ty, s.mcode)
+    if not m:
+        return EMPTY
+    return fn_view(s, "default", within=(m.start(), match_close(s.mcode, m.end() - 1)))
+
+
+def _pool_defaults():
+    names = ["pool_default_interval_ms", "pool_default_timeout_ms", "pool_default_min_idle"]
+    f = impl_default_body(S(rel), "SessionPoolConfig")
+    if not f:
+        problem("SessionPoolConfig::default not found", rel, names)
+        return {}
+    env, out = local_env(f), {}
+    for name, field, evf in ((names[0], "check_interval", ev_ms), (names[1], "idle_timeout", ev_ms), (names[2], "min_idle_sessions", ev_int)):
+        e = field_expr(f, field, env)
+        v = try_ev(evf, e, rel, env) if e is not None else None
+        if v is None:
+            problem(f"SessionPoolConfig::default: {field} is not a constant ({e!r})", rel, [name])
+        else:
+            out[name] = f"{v}%Z" if evf is ev_ms else str(v)
+    return out
+
+
+item(rel, [("pool_default_interval_ms", "Z", MISSING_Z), ("pool_default_timeout_ms", "Z", MISSING_Z),
+           ("pool_default_min_idle", "N", "missing_N")], _pool_defaults)
+
 
 # ---------------------------------------------------------------- padding package (C04/C05/C19)
 emit()
 rel = "src/padding/factory.rs"
-t = strip_comments(src(rel))
 emit(f"(* {rel}: bound on scheme sizes; None = the generator has no bound *)")
-m = re.search(r"const\s+MAX_RECORD_PAYLOAD_SIZE\s*:\s*i64\s*=\s*([^;]+);", t)
-bound = None
-if m:
-    e = m.group(1).strip()
-    if re.fullmatch(r"u16::MAX\s+as\s+i64", e):
-        bound = 65535
-    else:
-        try:
-            bound = eval_int(e)
-        except Exception:
-            problems.append(f"{rel}: MAX_RECORD_PAYLOAD_SIZE has non-literal value {e!r}")
-used = bool(re.search(r"if\s+max_val\s*>\s*MAX_RECORD_PAYLOAD_SIZE\s*\{\s*continue;", t))
-if bound is not None and used:
-    emit(f"Definition padding_size_bound : option Z := Some {bound}%Z.")
-else:
-    problems.append(f"{rel}: no `if max_val > MAX_RECORD_PAYLOAD_SIZE {{ continue; }}` bound in generate_record_payload_sizes")
-    emit("Definition padding_size_bound : option Z := None.")
+_ID = r"[a-z_][A-Za-z0-9_]*"
+
+
+def _padding_bound():
+    nm = ["padding_size_bound"]
+    f = fn_view(S(rel), "generate_record_payload_sizes")
+    if not f:
+        problem("generate_record_payload_sizes not found", rel, nm)
+        return {}
+    env = local_env(f)
+    # (1) the two parsed bounds are put in order: `let (lo, hi) = (a.min(b), a.max(b));` or `= if a <= b { (a, b) } else { (b, a) };`
+    norm = None
+    for m in f.finditer(r"\blet\s*\(\s*(%s)\s*,\s*(%s)\s*\)\s*=\s*" % (_ID, _ID)):
+        rest = f.code[m.end():]
+        a = re.match(r"\(\s*(%s)\s*\.\s*min\s*\(\s*(%s)\s*\)\s*,\s*(%s)\s*\.\s*max\s*\(\s*(%s)\s*\)\s*,?\s*\)\s*;" % (_ID, _ID, _ID, _ID), rest)
+        if a and {a.group(1), a.group(2)} == {a.group(3), a.group(4)} and a.group(1) != a.group(2):
+            norm = (m.end() + a.end(), m.group(2))
+            break
+        b = re.match(r"if\s+(%s)\s*(<=|<|>=|>)\s*(%s)\s*\{\s*\(\s*(%s)\s*,\s*(%s)\s*\)\s*\}\s*else\s*\{\s*\(\s*(%s)\s*,\s*(%s)\s*\)\s*\}\s*;" % ((_ID,) * 6), rest)
+        if b:
+            x, op, y, t1, t2, e1, e2 = b.groups()
+            small_first = op in ("<=", "<")
+            want_then = (x, y) if small_first else (y, x)
+            if x != y and (t1, t2) == want_then and (e1, e2) == (want_then[1], want_then[0]):
+                norm = (m.end() + b.end(), m.group(2))
+                break
+    if not norm:
+        problem("the (min, max) normalisation of a size range in generate_record_payload_sizes not found", rel, nm)
+        return {}
+    after, hi = norm
+    # (2) AFTER it, the larger bound is compared with a constant and the entry is skipped when it is above
+    for cond, blk, pos in iter_ifs(f):
+        if pos < after or not re.match(r"\{\s*(?:continue\s*;|return\s+None\s*;)", blk.code):
+            continue
+        cs, _, npieces = cond_cmps(cond)
+        if npieces != 1 or len(cs) != 1:
+            continue
+        c = orient(cs[0], lambda t: t == hi)
+        lim = try_ev(ev_int, c[2], rel, env) if c else None
+        if lim is None:
+            continue
+        if c[1] == ">":
+            return {"padding_size_bound": f"Some {lim}%Z"}
+        if c[1] == ">=":
+            return {"padding_size_bound": f"Some {lim - 1}%Z"}
+    problem("no `if <larger bound> > <const> { continue; }` after the (min, max) normalisation in generate_record_payload_sizes", rel, nm)
+    return {}
+
+
+item(rel, [("padding_size_bound", "option Z", "None")], _padding_bound)
 rel = "src/session/session.rs"
-t = strip_comments(src(rel))
 emit(f"(* {rel}: packet index = old counter value + this offset; client Settings literals *)")
-m = re.search(r"\.pkt_counter\s*\.fetch_add\(1,[^)]*\)(\s*\.wrapping_add\(([0-9]+)\))?", t)
-if m:
-    emit(f"Definition pkt_index_offset : N := {int(m.group(2)) if m.group(1) else 0}.")
-else:
-    problems.append(f"{rel}: pkt_counter.fetch_add not found")
-    emit("Definition pkt_index_offset : N := missing_N.")
-m = re.search(r"pub async fn start_client.*?Frame::with_data\(Command::Settings", t, re.S)
-kv, md5key = [], None
-if m:
-    for k, v in re.findall(r'settings\.insert\("([^"]*)",\s*"([^"]*)"\)', m.group(0)):
-        kv.append((k, v))
-    mk = re.search(r'settings\.insert\("([^"]*)",\s*padding_md5\)', m.group(0))
-    md5key = mk.group(1) if mk else None
-if not kv or md5key is None:
-    problems.append(f"{rel}: start_client settings literals not found")
-emit("Definition client_settings_fixed : list (list N * list N) := [" + "; ".join("(%s, %s)" % (coq_bytes(k.encode()), coq_bytes(v.encode())) for k, v in kv) + "].")
-emit("Definition client_settings_md5_key : list N := " + coq_bytes((md5key or "").encode()) + ".")
-m = re.search(r'settings\.get\("([^"]*)"\)\s*\{\s*let padding_guard', t)
-emit("Definition server_settings_md5_key : list N := " + coq_bytes((m.group(1) if m else "").encode()) + ".")
-if not m:
-    problems.append(f"{rel}: server-side padding-md5 lookup not found")
+
+
+def _pkt_offset():
+    s = S(rel)
+    v = V(s.mcode, s.mtext, s)
+    for m in v.finditer(r"\.\s*pkt_counter\s*\.\s*fetch_add\s*\("):
+        a = call_args(v, m.end() - 1)
+        end = match_close(v.code, m.end() - 1)
+        if not a or try_ev(ev_int, a[0], rel) != 1:
+            problem("pkt_counter.fetch_add does not add the constant 1", rel, ["pkt_index_offset"])
+            return {}
+        t = re.match(r"\s*(?:\.\s*(?:wrapping_add|saturating_add)\s*\(([^()]*)\)|\+\s*([^;]+?))?\s*;", v.code[end + 1:])
+        if not t:
+            problem("what follows pkt_counter.fetch_add(1, ..) is not understood", rel, ["pkt_index_offset"])
+            return {}
+        e = t.group(1) or t.group(2)
+        off = try_ev(ev_int, e, rel, local_env(enclosing_fn(s, m.start()))) if e else 0
+        if off is None or off < 0:
+            problem(f"packet index offset {e!r} is not a constant", rel, ["pkt_index_offset"])
+            return {}
+        return {"pkt_index_offset": str(off)}
+    problem("pkt_counter.fetch_add not found", rel, ["pkt_index_offset"])
+    return {}
+
+
+item(rel, [("pkt_index_offset", "N", "missing_N")], _pkt_offset)
+
+
+def _client_settings():
+    names = ["client_settings_fixed", "client_settings_md5_key"]
+    f = fn_view(S(rel), "start_client")
+    _, made = settings_frame_pos(f) if f else (-1, -1)
+    mv = f.search(r"\blet\s+mut\s+(%s)\s*(?::[^=;]+)?=\s*(?:[A-Za-z_:]*::)?StringMap\s*::\s*new\s*\(" % _ID) if f else None
+    kv, md5key = [], None
+    if mv and made >= 0:
+        env = local_env(f)
+        for m in f.finditer(r"\b%s\s*\.\s*insert\s*\(" % re.escape(mv.group(1))):
+            if m.start() > made:
+                break
+            a = call_args(f, m.end() - 1)
+            if len(a) != 2:
+                continue
+            k, v = try_ev(ev_bytes, a[0], rel), try_ev(ev_bytes, a[1], rel)
+            if k is not None and v is not None:
+                kv.append((k, v))
+            elif k is not None and "md5" in resolve_text(a[1], env) + a[1]:
+                md5key = k
+    if not kv or md5key is None:
+        problem("start_client settings literals not found", rel, names)
+    return {"client_settings_fixed": "[" + "; ".join("(%s, %s)" % (coq_bytes(k), coq_bytes(v)) for k, v in kv) + "]",
+            "client_settings_md5_key": coq_bytes(md5key or b"")}
+
+
+item(rel, [("client_settings_fixed", "list (list N * list N)", "[]"), ("client_settings_md5_key", "list N", "[]")], _client_settings)
+
+
+def arm_view(s, variant, fn="handle_frame"):
+    """block of the `Command::<variant> => { .. }` arm (helpers expanded)"""
+    f = fn_view(s, fn)
+    v = f if f else V(s.mcode, s.mtext, s)
+    blk, _ = block_after(v, r"\b(?:Command|Self)\s*::\s*%s\s*=>\s*\{" % variant)
+    if not blk and f:
+        v = V(s.mcode, s.mtext, s)
+        blk, _ = block_after(v, r"\b(?:Command|Self)\s*::\s*%s\s*=>\s*\{" % variant)
+        if blk:
+            blk = inline_helpers(blk, s)
+    return blk
+
+
+def _server_md5_key():
+    arm = arm_view(S(rel), "Settings")
+    gets = [m for m in arm.finditer(r"\.\s*get\s*\(")] if arm else []
+    for i, m in enumerate(gets):
+        nxt = gets[i + 1].start() if i + 1 < len(gets) else len(arm.code)
+        a = call_args(arm, m.end() - 1)
+        k = try_ev(ev_bytes, a[0], rel) if len(a) == 1 else None
+        if k is not None and re.search(r"\.\s*md5\s*\(\s*\)", arm.code[m.start():nxt]):
+            return {"server_settings_md5_key": coq_bytes(k)}
+    problem("server-side padding-md5 lookup not found", rel, ["server_settings_md5_key"])
+    return {}
+
+
+item(rel, [("server_settings_md5_key", "list N", "[]")], _server_md5_key)
 
 # ---------------------------------------------------------------- misc/cert package (C18)
-def _fn_body(text, header_re):
-    """text of a function from its header to the matching closing brace ('' if not found)"""
-    m = re.search(header_re, text)
-    if not m:
-        return ""
-    i = text.find("{", m.end() - 1)
-    depth, j = 0, i
-    while j < len(text):
-        if text[j] == "{":
-            depth += 1
-        elif text[j] == "}":
-            depth -= 1
-            if depth == 0:
-                return text[i:j + 1]
-        j += 1
-    return ""
-
-def _bool(v):
-    return "true" if v else "false"
-
 emit()
 rel = "src/util/cert_reloader.rs"
-t = strip_comments(src(rel))
-t = t[:t.find("#[cfg(test)]")] if "#[cfg(test)]" in t else t
 emit(f"(* {rel}: shape of the (re)load path *)")
-try:
-    m = re.search(r"impl Default for CertReloaderConfig.*?check_expiry:\s*(true|false)", t, re.S)
-    if not m:
-        problems.append(f"{rel}: CertReloaderConfig::default check_expiry not found")
-    emit(f"Definition cert_default_check_expiry : bool := {m.group(1) if m else 'false'}.")
-    helper = _fn_body(t, r"fn\s+load_pair\s*\(")
-    def cert_reads(body):
-        n = len(re.findall(r"create_server_config_from_files\s*\(", body)) + len(re.findall(r"from_pem_file\s*\(", body))
-        n += len(re.findall(r"(?:fs::read|File::open)\s*\(\s*&?\s*(?:self\.)?config\.cert_path", body))
-        return n
-    def key_reads(body):
-        n = len(re.findall(r"create_server_config_from_files\s*\(", body))
-        n += len(re.findall(r"(?:fs::read|File::open)\s*\(\s*&?\s*(?:self\.)?config\.key_path", body))
-        return n
-    for fn, hdr in (("new", r"pub\s+fn\s+new\s*\(\s*config"), ("reload", r"pub\s+fn\s+reload\s*\(")):
-        body = _fn_body(t, hdr)
-        if not body:
-            problems.append(f"{rel}: fn {fn} not found")
-        calls = len(re.findall(r"\bload_pair\s*\(", body))
-        emit(f"Definition cert_{fn}_cert_reads : N := {cert_reads(body) + calls * cert_reads(helper) if body else 'missing_N'}.")
-        emit(f"Definition cert_{fn}_key_reads : N := {key_reads(body) + calls * key_reads(helper) if body else 'missing_N'}.")
-    body = _fn_body(t, r"pub\s+fn\s+reload\s*\(")
-    writes = [m.start() for m in re.finditer(r"\.write\(\)\s*\.unwrap\(\)", body)]
-    exits = [m.start() for m in re.finditer(r"return\s+Err|\?\s*;", body)]
-    emit(f"Definition cert_reload_commit_writes : N := {len(writes)}.")
-    emit(f"Definition cert_reload_commit_after_checks : bool := {_bool(bool(writes) and bool(exits) and min(writes) > max(exits))}.")
-    chk = re.search(r"if\s+self\.config\.check_expiry\s*\{\s*if\s+([^{]*)\{\s*return\s+Err", body)
-    cond = re.sub(r"\s+", "", chk.group(1)) if chk else ""
-    emit(f"Definition cert_reload_expiry_uses_is_expired : bool := {_bool('new_cert_info.is_expired()' in cond)}.")
-    emit(f"Definition cert_reload_expiry_compares_not_after : bool := {_bool('new_cert_info.not_after<SystemTime::now()' in cond)}.")
-    nb = _fn_body(t, r"pub\s+fn\s+new\s*\(\s*config")
-    new_rejects = bool(re.search(r"is_expired\(\)[^}]*return\s+Err", nb))
-    emit(f"Definition cert_new_rejects_expired : bool := {_bool(new_rejects)}.")
-except Exception as e:
-    problems.append(f"{rel}: translator error {e!r}")
+
+
+def _cert_default():
+    f = impl_default_body(S(rel), "CertReloaderConfig")
+    e = field_expr(f, "check_expiry", local_env(f)) if f else None
+    v = try_ev(ev_bool, e, rel, local_env(f)) if e else None
+    if v is None:
+        problem("CertReloaderConfig::default check_expiry not found", rel, ["cert_default_check_expiry"])
+        return {}
+    return {"cert_default_check_expiry": _bool(v)}
+
+
+item(rel, [("cert_default_check_expiry", "bool", "false")], _cert_default)
+
+
+def _cert_fn(name):
+    s = S(rel)
+    m = re.search(r"\bimpl\s+CertReloader\s*\{", s.mcode)
+    within = (m.start(), match_close(s.mcode, m.end() - 1)) if m else None
+    return fn_view(s, name, within=within)
+
+
+def _cert_reads():
+    out = {}
+    for fn in ("new", "reload"):
+        f = _cert_fn(fn)
+        if not f:
+            problem(f"fn {fn} not found", rel, [f"cert_{fn}_cert_reads", f"cert_{fn}_key_reads"])
+            continue
+        both = len(re.findall(r"\bcreate_server_config_from_files\s*\(", f.code))
+        rd = r"(?:\bfs\s*::\s*read(?:_to_string)?|\bFile\s*::\s*open)\s*\(\s*&?\s*(?:self\s*\.\s*)?config\s*\.\s*%s\b"
+        out[f"cert_{fn}_cert_reads"] = str(both + len(re.findall(r"\bfrom_pem_file\s*\(", f.code)) + len(re.findall(rd % "cert_path", f.code)))
+        out[f"cert_{fn}_key_reads"] = str(both + len(re.findall(rd % "key_path", f.code)))
+    return out
+
+
+item(rel, [("cert_new_cert_reads", "N", "missing_N"), ("cert_new_key_reads", "N", "missing_N"),
+           ("cert_reload_cert_reads", "N", "missing_N"), ("cert_reload_key_reads", "N", "missing_N")], _cert_reads)
+
+
+def _cert_reload_shape():
+    names = ["cert_reload_commit_writes", "cert_reload_commit_after_checks", "cert_reload_expiry_uses_is_expired",
+             "cert_reload_expiry_compares_not_after"]
+    s = S(rel)
+    f = _cert_fn("reload")
+    if not f:
+        problem("fn reload not found", rel, names)
+        return {}
+    plain = fn_view(s, "reload", inline=False)          # commit writes / exits of reload itself (the helper only reads)
+    writes = [m.start() for m in plain.finditer(r"\.\s*write\s*\(\s*\)\s*\.\s*(?:unwrap|expect)\s*\(")]
+    exits = [m.start() for m in plain.finditer(r"\breturn\s+Err\b|\?\s*[;.)]")]
+    out = {"cert_reload_commit_writes": str(len(writes)),
+           "cert_reload_commit_after_checks": _bool(bool(writes) and bool(exits) and min(writes) > max(exits))}
+    uses, cmpna = False, False
+    blk, _ = block_after(f, r"\bif\s+(?:[\w.]*\.)?check_expiry\s*\{")
+    committed = {m.group(1) for m in f.finditer(r"\bcert_info\s*\.\s*write\s*\(\s*\)[^;]*=\s*Some\s*\(\s*(?:Arc\s*::\s*clone\s*\(\s*&\s*)?(%s)\b" % _ID)}
+    for cond, b2, pos in iter_ifs(blk) if blk else []:
+        if not re.match(r"\{\s*return\s+Err\b", b2.code):
+            continue
+        pieces = split_top(cond.code, ["||"])
+        if "&&" in cond.code:
+            break
+        for p, o in pieces:
+            m = re.fullmatch(r"\s*(%s)\s*\.\s*is_expired\s*\(\s*\)\s*" % _ID, p)
+            if m and m.group(1) in committed:
+                uses = True
+            c = parse_cmp(p)
+            c = orient(c, lambda t: t.endswith(".not_after")) if c else None
+            if c and c[1] == "<" and re.fullmatch(r"(?:std::time::)?SystemTime::now\(\)", c[2]) and c[0][:-len(".not_after")] in committed:
+                cmpna = True
+        break
+    out["cert_reload_expiry_uses_is_expired"] = _bool(uses)
+    out["cert_reload_expiry_compares_not_after"] = _bool(cmpna)
+    return out
+
+
+item(rel, [("cert_reload_commit_writes", "N", "missing_N"), ("cert_reload_commit_after_checks", "bool", "false"),
+           ("cert_reload_expiry_uses_is_expired", "bool", "false"), ("cert_reload_expiry_compares_not_after", "bool", "false")],
+     _cert_reload_shape)
+
+
+def _cert_new_rejects():
+    f = _cert_fn("new")
+    if not f:
+        problem("fn new not found", rel, ["cert_new_rejects_expired"])
+        return {}
+    rej = False
+    for cond, blk, pos in iter_ifs(f) if f else []:
+        if re.search(r"\bis_expired\s*\(\s*\)", cond.code) and not cond.code.strip().startswith("!") and re.search(r"\breturn\s+Err\b", blk.code):
+            rej = True
+    return {"cert_new_rejects_expired": _bool(rej)}
+
+
+item(rel, [("cert_new_rejects_expired", "bool", "true")], _cert_new_rejects)
 rel = "src/util/cert_analyzer.rs"
-t = strip_comments(src(rel))
-t = t[:t.find("#[cfg(test)]")] if "#[cfg(test)]" in t else t
 emit(f"(* {rel}: day arithmetic of days_until_expiry / is_expired *)")
-divs = set(re.findall(r"as_secs\(\)\s*/\s*([0-9_]+)", _fn_body(t, r"fn\s+from_x509\s*\(")))
-if len(divs) == 1:
-    emit(f"Definition cert_secs_per_day : Z := {eval_int(divs.pop())}%Z.")
-else:
-    problems.append(f"{rel}: days_until_expiry divisor not found or not unique")
-    emit("Definition cert_secs_per_day : Z := 999999999%Z.")
-m = re.search(r"pub\s+fn\s+is_expired\s*\(&self\)\s*->\s*bool\s*\{\s*self\.days_until_expiry\s*<\s*(-?[0-9]+)\s*\}", t)
-if m:
-    emit(f"Definition cert_expired_below_days : Z := ({m.group(1)})%Z.")
-else:
-    problems.append(f"{rel}: is_expired is no longer `days_until_expiry < literal`")
-    emit("Definition cert_expired_below_days : Z := 999999999%Z.")
+
+
+def _cert_days():
+    f = fn_view(S(rel), "from_x509")
+    env = local_env(f) if f else {}
+    divs = set()
+    for m in f.finditer(r"\bas_secs\s*\(\s*\)\s*/\s*([A-Za-z0-9_:]+(?:\s*\*\s*[A-Za-z0-9_:]+)*)") if f else []:
+        divs.add(try_ev(ev_int, m.group(1), rel, env))
+    if len(divs) != 1 or None in divs:
+        problem("days_until_expiry divisor not found or not unique", rel, ["cert_secs_per_day"])
+        return {}
+    return {"cert_secs_per_day": f"{divs.pop()}%Z"}
+
+
+item(rel, [("cert_secs_per_day", "Z", MISSING_Z)], _cert_days)
+
+
+def _cert_expired():
+    f = fn_view(S(rel), "is_expired")
+    body = f.code[f.code.find("{"):] if f else ""
+    c = parse_cmp(re.sub(r"^\{\s*(?:return\s+)?|;?\s*\}\s*$", "", body.strip())) if body else None
+    c = orient(c, lambda t: t == "self.days_until_expiry") if c else None
+    lim = try_ev(ev_int, c[2], rel) if c else None
+    if lim is not None and c[1] in ("<", "<="):
+        return {"cert_expired_below_days": f"({lim + (1 if c[1] == '<=' else 0)})%Z"}
+    problem("is_expired is no longer `days_until_expiry < constant`", rel, ["cert_expired_below_days"])
+    return {}
+
+
+item(rel, [("cert_expired_below_days", "Z", MISSING_Z)], _cert_expired)
 rel = "src/bin/server.rs"
-t = strip_comments(src(rel))
-m = re.search(r"CertReloaderConfig\s*\{[^}]*check_expiry:\s*(true|false)", t)
 emit(f"(* {rel} *)")
-emit(f"Definition cert_bin_check_expiry : bool := {m.group(1) if m else 'false'}.")
-if not m:
-    problems.append(f"{rel}: CertReloaderConfig literal not found")
+
+
+def _cert_bin():
+    s = S(rel)
+    v = V(s.mcode, s.mtext, s)
+    for m in v.finditer(r"\bCertReloaderConfig\s*\{"):
+        blk = v.sub(m.end() - 1, match_close(v.code, m.end() - 1) + 1)
+        env = local_env(enclosing_fn(s, m.start()))
+        e = field_expr(blk, "check_expiry", env)
+        b = try_ev(ev_bool, e, rel, env) if e else None
+        if b is not None:
+            return {"cert_bin_check_expiry": _bool(b)}
+    problem("CertReloaderConfig literal not found", rel, ["cert_bin_check_expiry"])
+    return {}
+
+
+item(rel, [("cert_bin_check_expiry", "bool", "false")], _cert_bin)
 # server.rs `listen`: the per-connection snapshot of the acceptor must be taken AFTER accept() returned
 # (inside the accept loop, textually after `listener.accept().await`), otherwise the connection accepted
 # after a reload is still served the previous certificate (premise of C18_snapshot)
 rel = "src/server/server.rs"
-t = strip_comments(src(rel))
-try:
-    body = _fn_body(t, r"pub\s+async\s+fn\s+listen\s*\(")
-    lp = body.find("loop")
-    acc = [m.start() for m in re.finditer(r"listener\s*\.accept\(\)\s*\.await", body)]
-    snaps = [m.start() for m in re.finditer(r"self\s*\.tls_config\s*\.read\(\)\s*\.unwrap\(\)\s*\.clone\(\)", body)]
-    good = lp >= 0 and len(acc) == 1 and len(snaps) == 1 and lp < acc[0] < snaps[0]
-    if not body:
-        problems.append(f"{rel}: fn listen not found")
-    emit(f"(* {rel} *)")
-    emit(f"Definition listen_snapshot_after_accept : bool := {_bool(good)}.")
-except Exception as e:
-    problems.append(f"{rel}: translator error {e!r}")
-    emit("Definition listen_snapshot_after_accept : bool := false.")
 
+
+def _listen_snapshot():
+    f = fn_view(S(rel), "listen")
+    if not f:
+        problem("fn listen not found", rel, ["listen_snapshot_after_accept"])
+        return {}
+    lp = f.search(r"\bloop\s*\{|\bwhile\b")
+    acc = [m.start() for m in f.finditer(r"\.\s*accept\s*\(\s*\)\s*\.\s*await\b")]
+    snaps = [m.start() for m in f.finditer(r"\bself\s*\.\s*tls_config\s*\.\s*read\s*\(\s*\)")]
+    good = bool(lp) and len(acc) == 1 and len(snaps) == 1 and lp.start() < acc[0] < snaps[0]
+    return {"listen_snapshot_after_accept": _bool(good)}
+
+
+emit(f"(* {rel} *)")
+item(rel, [("listen_snapshot_after_accept", "bool", "false")], _listen_snapshot)
+emit()
 
 # ---------------------------------------------------------------- timed package (C12/C13/C14)
-# comparison operators are emitted as codes: 0 `<`, 1 `<=`, 2 `>`, 3 `>=`, 99 = not found
-_CMP = {"<": 0, "<=": 1, ">": 2, ">=": 3}
-try:
-    emit()
-    rel = "src/client/session_pool.rs"
-    t = strip_comments(src(rel))
-    t = t[:t.find("#[cfg(test)]")] if "#[cfg(test)]" in t else t
-    emit(f"(* {rel}: shape of get_idle_session and of the two copies of the reaper loop (cleanup_expired, periodic task) *)")
-    g = _fn_body(t, r"pub\s+async\s+fn\s+get_idle_session\s*\(")
-    last, first = "last_key_value" in g, "first_key_value" in g
-    if not g or last == first:
-        problems.append(f"{rel}: get_idle_session no longer takes exactly one of last_key_value / first_key_value")
-    emit(f"Definition pool_get_takes_last : bool := {_bool(last and not first)}.")
-    mi, mr = re.search(r"if\s+pooled\.session\.is_closed\(\)\s*\{", g), re.search(r"return\s+Some\(pooled\.session\)", g)
-    skips = bool(mi and mr and mi.end() < mr.start() and re.search(r"\bcontinue\s*;", g[mi.end():mr.start()]))
-    emit(f"Definition pool_get_skips_closed : bool := {_bool(skips)}.")
-    a = _fn_body(t, r"pub\s+async\s+fn\s+add_idle_session\s*\(")
-    add_skips = bool(re.search(r"if\s+session\.is_closed\(\)\s*\{[^{}]*return\s*;", a))
-    emit(f"Definition pool_add_skips_closed : bool := {_bool(add_skips)}.")
-    exp = re.findall(r"if\s+idle_duration\s*(<=|>=|<|>)\s*(?:self\.config\.)?idle_timeout\s*\{\s*active_count\s*\+=\s*1\s*;\s*continue\s*;", t)
-    mn = re.findall(r"if\s+active_count\s*(<=|>=|<|>)\s*(?:self\.config\.min_idle_sessions|min_idle)\s*\{\s*active_count\s*\+=\s*1\s*;", t)
-    purge = re.findall(r"if\s+pooled\.session\.is_closed\(\)\s*\{\s*to_remove\.push\(\*seq\)\s*;\s*continue\s*;", t)
-    if len(exp) != 2 or len(mn) != 2 or len(purge) != 2:
-        problems.append(f"{rel}: expected two copies of the reaper loop (found expiry tests {exp}, minimum tests {mn}, purge tests {len(purge)})")
-    emit("Definition pool_reap_unexpired_cmp : list N := [" + "; ".join(str(_CMP[x]) for x in exp) + "].")
-    emit("Definition pool_reap_min_cmp : list N := [" + "; ".join(str(_CMP[x]) for x in mn) + "].")
-    emit(f"Definition pool_reap_purges_closed : N := {len(purge)}.")
-    asc = len(re.findall(r"in\s+sessions\.iter\(\)\s*\{", t)) == 2 and ".rev()" not in t
-    emit(f"Definition pool_reap_ascending : bool := {_bool(asc)}.")
-    rel = "src/client/client.rs"
-    t = strip_comments(src(rel))
-    emit(f"(* {rel}: heartbeat configuration of new sessions, insertion into the idle map at creation *)")
-    lits = re.findall(r"SessionHeartbeatConfig\s*\{([^}]*)\}", t)
-    okl = [bool(re.search(r"interval:\s*self\.pool_config\.check_interval\s*,\s*timeout:\s*self\.pool_config\.idle_timeout\s*,?\s*$", x.strip())) for x in lits]
+# comparison operators are emitted as codes: 0 `<`, 1 `<=`, 2 `>`, 3 `>=`, 99 = not found; always for the canonical
+# orientation named in the comment of the item (`b > a` is reported as `a < b`)
+rel = "src/client/session_pool.rs"
+emit(f"(* {rel}: shape of get_idle_session and of the two copies of the reaper loop (cleanup_expired, periodic task) *)")
+_REAPERS = ("cleanup_expired", "start_cleanup_task")
+
+
+def _pool_get():
+    names = ["pool_get_takes_last", "pool_get_skips_closed"]
+    g = fn_view(S(rel), "get_idle_session")
+    if not g:
+        problem("get_idle_session not found", rel, names)
+        return {}
+    n_last = len(re.findall(r"\.\s*(?:last_key_value|pop_last|last_entry)\s*\(", g.code))
+    n_first = len(re.findall(r"\.\s*(?:first_key_value|pop_first|first_entry)\s*\(", g.code))
+    last = n_last == 1 and n_first == 0
+    if not last:
+        problem("get_idle_session no longer takes exactly one entry, the last one (last_key_value / pop_last)", rel, names[:1])
+    lp = g.search(r"\bloop\s*\{|\bwhile\b")
+    skips = False
+    rets = [m.start() for m in g.finditer(r"\breturn\s+Some\s*\(")]
+    for cond, blk, pos in iter_ifs(g):
+        m = re.fullmatch(r"\s*(!?)\s*(%s)\s*\.\s*session\s*\.\s*is_closed\s*\(\s*\)\s*" % _ID, cond.code)
+        if not m or not lp or pos < lp.start():
+            continue
+        b0 = g.code.find(blk.code, pos)
+        b1 = b0 + len(blk.code)
+        if not m.group(1):      # if closed { .. continue; } ... return Some(x.session)
+            skips = bool(re.search(r"\bcontinue\s*;", blk.code)) and bool(rets) and all(r > b1 for r in rets)
+        else:                   # if !closed { .. return Some(x.session); }  (closed: falls through to the next iteration)
+            tail = g.code[b1:]
+            skips = bool(rets) and all(b0 < r < b1 for r in rets) and not re.search(r"\bSome\s*\(|\bbreak\b", tail)
+        break
+    return {"pool_get_takes_last": _bool(last), "pool_get_skips_closed": _bool(skips)}
+
+
+item(rel, [("pool_get_takes_last", "bool", "false"), ("pool_get_skips_closed", "bool", "false")], _pool_get)
+
+
+def _pool_add():
+    a = fn_view(S(rel), "add_idle_session")
+    pm = re.search(r"\(\s*&\s*self\s*,\s*(?:mut\s+)?(%s)\s*:" % _ID, a.code) if a else None
+    ins = a.search(r"\.\s*insert\s*\(") if a else None
+    ok = False
+    for cond, blk, pos in iter_ifs(a) if pm else []:
+        if re.fullmatch(r"\s*%s\s*\.\s*is_closed\s*\(\s*\)\s*" % re.escape(pm.group(1)), cond.code) and re.search(r"\breturn\s*;", blk.code) \
+                and (not ins or pos < ins.start()):
+            ok = True
+    return {"pool_add_skips_closed": _bool(ok)}
+
+
+item(rel, [("pool_add_skips_closed", "bool", "false")], _pool_add)
+
+
+def reaper_copy(f):
+    """one copy of the reaper loop -> dict(exp=[ops], mn=[ops], purge=n, asc=bool, guard=.., loop_pos=..)"""
+    r = {"exp": [], "mn": [], "purge": 0, "asc": False, "guard": None, "loop_pos": -1}
+    m = f.search(r"\bfor\s+[^{;]*?\bin\s+(%s)\s*\.\s*iter\s*\(\s*\)\s*(\.\s*rev\s*\(\s*\)\s*)?\{" % _ID)
+    if not m:
+        return r
+    r["guard"], r["loop_pos"], r["asc"] = m.group(1), m.start(), not m.group(2)
+    end = match_close(f.code, m.end() - 1)
+    loop = f.sub(m.end() - 1, end + 1)
+    env = local_env(f)
+    counters = {c.group(1) for c in f.finditer(r"\blet\s+mut\s+(%s)\s*(?::\s*\w+\s*)?=\s*0(?:usize|u32|u64|i32)?\s*;" % _ID)}
+
+    def is_idle(t):
+        return "idle_since" in resolve_text(t, env)
+
+    def is_timeout(t):
+        return bool(re.fullmatch(r"(?:[\w]+\.)*idle_timeout", resolve_text(t, env)))
+
+    def is_min(t):
+        return bool(re.fullmatch(r"(?:[\w]+\.)*min_idle_sessions", resolve_text(t, env)))
+    for cond, blk, pos in iter_ifs(loop):
+        if re.fullmatch(r"\s*%s\s*\.\s*session\s*\.\s*is_closed\s*\(\s*\)\s*" % _ID, cond.code):
+            if re.search(r"\.\s*push\s*\(", blk.code) and re.search(r"\bcontinue\s*;", blk.code):
+                r["purge"] += 1
+            continue
+        cnt = re.search(r"\b(%s)\s*\+=\s*1\s*;" % _ID, blk.code)
+        if not cnt or cnt.group(1) not in counters or not re.search(r"\bcontinue\s*;", blk.code):
+            continue
+        cs, pure_or, npieces = cond_cmps(cond)
+        if not pure_or or len(cs) != npieces:
+            continue
+        for c in cs:
+            e = orient(c, is_idle)
+            if e and is_timeout(e[2]) and e[1] in _CMP:
+                r["exp"].append(e[1])
+                continue
+            e = orient(c, lambda t: t in counters)
+            if e and e[0] == cnt.group(1) and is_min(e[2]) and e[1] in _CMP:
+                r["mn"].append(e[1])
+    return r
+
+
+def _pool_reap():
+    names = ["pool_reap_unexpired_cmp", "pool_reap_min_cmp", "pool_reap_purges_closed", "pool_reap_ascending"]
+    s = S(rel)
+    copies = [reaper_copy(fn_view(s, fn)) for fn in _REAPERS]
+    exp = [o for c in copies for o in c["exp"]]
+    mn = [o for c in copies for o in c["mn"]]
+    purge = sum(c["purge"] for c in copies)
+    if any(len(c["exp"]) != 1 or len(c["mn"]) != 1 or c["purge"] != 1 for c in copies):
+        problem("expected two copies of the reaper loop (found expiry tests %s, minimum tests %s, purge tests %d)" % (exp, mn, purge), rel, names[:3])
+    asc = all(c["asc"] for c in copies) and not re.search(r"\.\s*rev\s*\(", s.mcode)
+    return {"pool_reap_unexpired_cmp": "[" + "; ".join(str(_CMP[x]) for x in exp) + "]",
+            "pool_reap_min_cmp": "[" + "; ".join(str(_CMP[x]) for x in mn) + "]",
+            "pool_reap_purges_closed": str(purge), "pool_reap_ascending": _bool(asc)}
+
+
+item(rel, [("pool_reap_unexpired_cmp", "list N", "[]"), ("pool_reap_min_cmp", "list N", "[]"),
+           ("pool_reap_purges_closed", "N", "missing_N"), ("pool_reap_ascending", "bool", "false")], _pool_reap)
+rel = "src/client/client.rs"
+emit(f"(* {rel}: heartbeat configuration of new sessions, insertion into the idle map at creation *)")
+
+
+def _client_glue():
+    s = S(rel)
+    v = V(s.code, s.text, s)            # hook copy included: it builds sessions the same way
+    lits = []
+    for m in v.finditer(r"\bSessionHeartbeatConfig\s*\{"):
+        if re.search(r"\b(?:struct|impl|for)\s+$", v.code[:m.start()]):
+            continue
+        blk = v.sub(m.end() - 1, match_close(v.code, m.end() - 1) + 1)
+        env = local_env(enclosing_fn(s, m.start(), main=False))
+        i, t = field_expr(blk, "interval", env), field_expr(blk, "timeout", env)
+        lits.append(i is not None and t is not None and resolve_text(i, env) == "self.pool_config.check_interval"
+                    and resolve_text(t, env) == "self.pool_config.idle_timeout" and len(split_top(blk.code[1:-1].strip().rstrip(","), [","])) == 2)
     if not lits:
-        problems.append(f"{rel}: SessionHeartbeatConfig literal not found")
-    emit(f"Definition hb_cfg_is_pool_interval_timeout : bool := {_bool(bool(lits) and all(okl))}.")
-    cn = _fn_body(t, r"async\s+fn\s+create_new_session\s*\(")
-    adds = bool(re.search(r"session_pool\s*\.add_idle_session\(session\.clone\(\)\)", cn))
-    emit(f"Definition client_adds_new_session_to_idle : bool := {_bool(adds)}.")
-    cs = _fn_body(t, r"pub\s+async\s+fn\s+create_stream\s*\(")
-    emit(f"Definition client_reinserts_on_reuse : bool := {_bool('add_idle_session' in cs)}.")
-    rel = "src/session/session.rs"
-    t = strip_comments(src(rel))
-    emit(f"(* {rel}: the liveness rule of the heartbeat task *)")
-    hbt = t[t.find("let mut ticker = time::interval(heartbeat_state.interval)"):]
-    hbt = hbt[:hbt.find("pub async fn process_stream_data")] if "pub async fn process_stream_data" in hbt else hbt
-    if not hbt:
-        problems.append(f"{rel}: heartbeat task not found")
-    m1 = re.search(r"sent\.elapsed\(\)\s*(<=|>=|<|>)\s*heartbeat_state\.timeout", hbt)
-    m2 = re.search(r"if\s+responses\s*(<=|>=|<|>)\s*seen\s*\{\s*outstanding\s*=\s*None", hbt)
-    legacy = bool(re.search(r"last_seen\s*(<=|>=|<|>)\s*heartbeat_state\.timeout", hbt))
-    emit(f"Definition hb_rule_deadline_per_request : bool := {_bool(bool(m1) and bool(m2) and not legacy)}.")
-    emit(f"Definition hb_expire_cmp : N := {_CMP[m1.group(1)] if m1 else 99}.")
-    emit(f"Definition hb_answered_cmp : N := {_CMP[m2.group(1)] if m2 else 99}.")
-    arm = re.search(r"Command::HeartResponse\s*=>\s*\{(.*?)\n            \}", t, re.S)
-    armt = arm.group(1) if arm else ""
-    arm_counts = bool(re.search(r"responses\s*\.fetch_add\(1", armt))
-    emit(f"Definition hb_response_arm_counts : bool := {_bool(arm_counts)}.")
-    others = [c for c in re.findall(r"Command::([A-Za-z]+)\s*=>\s*\{", t) if c != "HeartResponse"]
-    cnt = len(re.findall(r"responses\s*\.fetch_add\(", t))
-    emit(f"Definition hb_counter_updates : N := {cnt}.")
-    rel = "src/bin/client.rs"
-    t = strip_comments(src(rel))
-    pu = _fn_body(t, r"fn\s+parse_u64\s*\(")
-    emit(f"(* {rel}: -I / -T are whole seconds, 0 rejected *)")
-    rej0 = bool(re.search(r"if\s+parsed\s*==\s*0\s*\{\s*anyhow::bail!", pu))
-    emit(f"Definition cli_rejects_zero_seconds : bool := {_bool(rej0)}.")
-    both = bool(re.search(r"idle_check_interval\s*=\s*Some\(parse_u64\(", t)) and bool(re.search(r"idle_timeout\s*=\s*Some\(parse_u64\(", t))
-    emit(f"Definition cli_interval_timeout_via_parse_u64 : bool := {_bool(both)}.")
-    # ---- shapes added after seeded changes (order of set_seq / add_idle_session; reaper atomicity; heartbeat baseline)
-    rel = "src/client/client.rs"
-    t = strip_comments(src(rel))
-    emit(f"(* {rel}: the pool key (Session::seq) is set before the session is inserted into the idle map; real path, hook path *)")
-    for nm, hdr in (("real", r"async\s+fn\s+create_new_session\s*\("), ("hook", r"async\s+fn\s+verif_create_new_session\s*\(")):
-        body = _fn_body(t, hdr)
-        if nm == "real" and "verif_create_new_session(connector)" in body:
-            pass
-        i_set, i_add = body.find(".set_seq("), body.find(".add_idle_session(")
-        ok = bool(body) and i_set >= 0 and i_add >= 0 and i_set < i_add
-        if not body:
-            problems.append(f"{rel}: {nm} copy of create_new_session not found")
-        emit(f"Definition client_seq_set_before_add_{nm} : bool := {_bool(ok)}.")
-    rel = "src/session/session.rs"
-    t = strip_comments(src(rel))
-    m0 = re.search(r"pub\s+fn\s+new_client<R, W>.*?\n    \}\n", t, re.S)
-    sq = ctor_field(m0.group(0), "seq") if m0 else None
-    emit(f"(* {rel}: Session::seq before set_seq *)")
-    emit(f"Definition session_initial_seq : N := {N(eval_int(sq) if sq and sq.isdigit() else None)}.")
-    rel = "src/client/session_pool.rs"
-    t = strip_comments(src(rel))
-    t = t[:t.find("#[cfg(test)]")] if "#[cfg(test)]" in t else t
-    emit(f"(* {rel}: each reaper copy scans, removes from the map and closes under ONE write guard (no read-lock scan, no drop before the closes) *)")
+        problem("SessionHeartbeatConfig literal not found", rel, ["hb_cfg_is_pool_interval_timeout"])
+    cn = fn_view(s, "create_new_session")
+    cs = fn_view(s, "create_stream", inline=False)      # not expanded: create_new_session (the other path) does insert
+    if not cn or not cs:
+        problem("create_new_session / create_stream not found", rel, ["client_adds_new_session_to_idle", "client_reinserts_on_reuse"])
+        return {"hb_cfg_is_pool_interval_timeout": _bool(bool(lits) and all(lits))}
+    return {"hb_cfg_is_pool_interval_timeout": _bool(bool(lits) and all(lits)),
+            "client_adds_new_session_to_idle": _bool(bool(cn) and bool(cn.search(r"\bsession_pool\s*\.\s*add_idle_session\s*\("))),
+            "client_reinserts_on_reuse": _bool("add_idle_session" in cs.code)}
+
+
+item(rel, [("hb_cfg_is_pool_interval_timeout", "bool", "false"), ("client_adds_new_session_to_idle", "bool", "false"),
+           ("client_reinserts_on_reuse", "bool", "true")], _client_glue)
+rel = "src/session/session.rs"
+emit(f"(* {rel}: the liveness rule of the heartbeat task *)")
+
+
+def heartbeat_task():
+    """the heartbeat task of start_client: from `interval(<state>.interval)` to the end of the function, plus the names of
+    the locals that play the roles (counter value loaded at the wake, the outstanding request, its two components)"""
+    f = fn_view(S(rel), "start_client")
+    m = f.search(r"\binterval\s*\(\s*[\w.]*\.\s*interval\s*\)") if f else None
+    if not m:
+        return None
+    h = f.sub(m.start())
+    r = {"v": h, "env": local_env(h)}
+    m = h.search(r"\blet\s+(%s)\s*(?::[^=;]+)?=\s*[\w.\s]*?\.\s*responses\s*\.\s*load\s*\(" % _ID)
+    r["cur"] = m.group(1) if m else None
+    m = h.search(r"\blet\s+mut\s+(%s)\s*(?::[^=;]+)?=\s*None\s*;" % _ID)
+    r["out"] = m.group(1) if m else None
+    m = h.search(r"\bSome\s*\(\s*\(\s*(%s)\s*,\s*(%s)\s*\)\s*\)\s*=\s*%s\b" % (_ID, _ID, re.escape(r["out"]))) if r["out"] else None
+    r["sent"], r["seen"] = (m.group(1), m.group(2)) if m else (None, None)
+    return r
+
+
+def _hb_rule():
+    names = ["hb_rule_deadline_per_request", "hb_expire_cmp", "hb_answered_cmp"]
+    hb = heartbeat_task()
+    if not hb:
+        problem("heartbeat task not found", rel, names + ["hb_baseline_before_write"])
+        return {"hb_rule_deadline_per_request": "false", "hb_expire_cmp": "99", "hb_answered_cmp": "99"}
+    h, env = hb["v"], hb["env"]
+
+    def is_timeout(t):
+        return bool(re.fullmatch(r"(?:\w+\.)*timeout", resolve_text(t, env)))
+    m1 = m2 = None
+    foreign = False                 # a timeout comparison that is not `<sent>.elapsed() op timeout`: the per-tick legacy rule
+    for cond, blk, pos in iter_ifs(h):
+        cs, _, _ = cond_cmps(cond)
+        for c in cs:
+            e = orient(c, lambda t: not is_timeout(t))
+            if e and is_timeout(e[2]) and e[1] in _CMP:
+                if hb["sent"] and resolve_text(e[0], env) in (hb["sent"] + ".elapsed()", "Instant::now().duration_since(%s)" % hb["sent"]):
+                    m1 = m1 or e[1]
+                else:
+                    foreign = True
+                continue
+            e = orient(c, lambda t: t == hb["cur"]) if hb["cur"] else None
+            if e and e[2] == hb["seen"] and e[1] in _CMP and hb["out"] and re.search(r"\b%s\s*=\s*None\b" % re.escape(hb["out"]), blk.code):
+                m2 = m2 or e[1]
+    return {"hb_rule_deadline_per_request": _bool(bool(m1) and bool(m2) and not foreign),
+            "hb_expire_cmp": str(_CMP[m1]) if m1 else "99", "hb_answered_cmp": str(_CMP[m2]) if m2 else "99"}
+
+
+item(rel, [("hb_rule_deadline_per_request", "bool", "false"), ("hb_expire_cmp", "N", "99"), ("hb_answered_cmp", "N", "99")], _hb_rule)
+
+
+def _hb_counts():
+    s = S(rel)
+    arm = arm_view(s, "HeartResponse")
+    counts = False
+    for m in arm.finditer(r"\bresponses\s*\.\s*fetch_add\s*\(") if arm else []:
+        a = call_args(arm, m.end() - 1)
+        counts = counts or (bool(a) and try_ev(ev_int, a[0], rel) == 1)
+    return {"hb_response_arm_counts": _bool(counts),
+            "hb_counter_updates": str(len(re.findall(r"\bresponses\s*\.\s*(?:fetch_\w+|store|swap)\s*\(", s.mcode)))}
+
+
+item(rel, [("hb_response_arm_counts", "bool", "false"), ("hb_counter_updates", "N", "missing_N")], _hb_counts)
+rel = "src/bin/client.rs"
+emit(f"(* {rel}: -I / -T are whole seconds, 0 rejected *)")
+
+
+def _cli():
+    s = S(rel)
+    pu = fn_view(s, "parse_u64")
+    rej0 = False
+    for cond, blk, pos in iter_ifs(pu) if pu else []:
+        cs, _, n = cond_cmps(cond)
+        if n == 1 and len(cs) == 1 and cs[0][1] == "==" and "0" in (cs[0][0], cs[0][2]) and re.search(r"\bbail!|\breturn\s+Err\b", blk.code):
+            rej0 = True
+    both = bool(re.search(r"\bidle_check_interval\s*=\s*Some\s*\(\s*parse_u64\s*\(", s.mcode)) and bool(re.search(r"\bidle_timeout\s*=\s*Some\s*\(\s*parse_u64\s*\(", s.mcode))
+    return {"cli_rejects_zero_seconds": _bool(rej0), "cli_interval_timeout_via_parse_u64": _bool(both)}
+
+
+item(rel, [("cli_rejects_zero_seconds", "bool", "false"), ("cli_interval_timeout_via_parse_u64", "bool", "false")], _cli)
+# ---- shapes added after seeded changes (order of set_seq / add_idle_session; reaper atomicity; heartbeat baseline)
+rel = "src/client/client.rs"
+emit(f"(* {rel}: the pool key (Session::seq) is set before the session is inserted into the idle map; real path, hook path *)")
+
+
+def _seq_order():
+    s = S(rel)
+    out = {}
+    for nm, fn, main in (("real", "create_new_session", True), ("hook", "verif_create_new_session", False)):
+        f = fn_view(s, fn, main=main)
+        sets = [m.start() for m in f.finditer(r"\.\s*set_seq\s*\(")] if f else []
+        adds = [m.start() for m in f.finditer(r"\.\s*add_idle_session\s*\(")] if f else []
+        if not f:
+            problem(f"{nm} copy of create_new_session not found", rel, [f"client_seq_set_before_add_{nm}"])
+        out[f"client_seq_set_before_add_{nm}"] = _bool(bool(sets) and bool(adds) and max(sets) < min(adds))
+    return out
+
+
+item(rel, [("client_seq_set_before_add_real", "bool", "false"), ("client_seq_set_before_add_hook", "bool", "false")], _seq_order)
+rel = "src/session/session.rs"
+emit(f"(* {rel}: Session::seq before set_seq *)")
+
+
+def _initial_seq():
+    f = fn_view(S(rel), "new_client")
+    env = local_env(f) if f else {}
+    e = field_expr(f, "seq", env) if f else None
+    v = try_ev(ev_int, unwrap_ctor(e), rel, env) if e is not None else None
+    if v is None:
+        problem(f"new_client.seq is not a constant ({e!r})", rel, ["session_initial_seq"])
+        return {}
+    return {"session_initial_seq": str(v)}
+
+
+item(rel, [("session_initial_seq", "N", "missing_N")], _initial_seq)
+rel = "src/client/session_pool.rs"
+emit(f"(* {rel}: each reaper copy scans, removes from the map and closes under ONE write guard (no read-lock scan, no drop before the closes) *)")
+_WRITE = r"\bidle_sessions\s*\.\s*write\s*\(\s*\)\s*\.\s*await\b"
+
+
+def _pool_atomic():
+    s = S(rel)
     flags = []
-    for hdr in (r"pub\s+async\s+fn\s+cleanup_expired\s*\(", r"fn\s+start_cleanup_task\s*\("):
-        body = _fn_body(t, hdr)
-        i_w = body.find("idle_sessions.write().await")
-        i_loop = body.find("in sessions.iter()")
-        i_rm = body.find("sessions.remove(seq)")
-        i_cl = body.find(".session.close().await")
-        ok = bool(body) and 0 <= i_w < i_loop < i_rm < i_cl and ".read().await" not in body and "drop(sessions)" not in body \
-            and body.count("idle_sessions.write().await") == 1 and ".retain(" not in body
+    for fn in _REAPERS:
+        f = fn_view(s, fn)
+        ok = False
+        if f:
+            w = [m.start() for m in f.finditer(_WRITE)]
+            gm = f.search(r"\blet\s+(?:mut\s+)?(%s)\s*(?::[^=;]+)?=\s*[\w.\s]*?%s" % (_ID, _WRITE[2:]))
+            g = gm.group(1) if gm else None
+            lp = f.search(r"\bin\s+%s\s*\.\s*iter\s*\(" % re.escape(g)) if g else None
+            rm = f.search(r"\b%s\s*\.\s*remove\s*\(" % re.escape(g), lp.end()) if lp else None
+            cl = f.search(r"\.\s*close\s*\(\s*\)\s*\.\s*await\b", rm.end()) if rm else None
+            ok = len(w) == 1 and bool(cl) and w[0] < lp.start() and not re.search(r"\.\s*read\s*\(\s*\)\s*\.\s*await\b", f.code) \
+                and not re.search(r"\bdrop\s*\(\s*%s\s*\)" % re.escape(g), f.code) and not re.search(r"\.\s*retain\s*\(", f.code)
         flags.append(ok)
-    emit("Definition pool_reap_atomic_under_write_guard : list bool := [" + "; ".join(_bool(f) for f in flags) + "].")
-    g = _fn_body(t, r"pub\s+async\s+fn\s+get_idle_session\s*\(")
-    emit(f"Definition pool_get_under_write_guard : bool := {_bool('idle_sessions.write().await' in g and '.read().await' not in g)}.")
-    rel = "src/session/session.rs"
-    t = strip_comments(src(rel))
-    hbt = t[t.find("let mut ticker = time::interval(heartbeat_state.interval)"):]
-    hbt = hbt[:hbt.find("pub async fn process_stream_data")] if "pub async fn process_stream_data" in hbt else hbt
-    emit(f"(* {rel}: the outstanding request and its response baseline are recorded BEFORE the HeartRequest is written, the baseline being the counter value loaded at the wake *)")
-    i_out = hbt.find("outstanding = Some((Instant::now(), responses))")
-    i_wr = hbt.find("write_control_frame(Frame::control(Command::HeartRequest")
-    loads = len(re.findall(r"\.responses\s*\.load\(", hbt))
-    emit(f"Definition hb_baseline_before_write : bool := {_bool(0 <= i_out < i_wr and loads == 1 and hbt.count('outstanding = Some(') == 1)}.")
-except Exception as e:
-    problems.append(f"timed package: translator error {e!r}")
+    g = fn_view(s, "get_idle_session")
+    return {"pool_reap_atomic_under_write_guard": "[" + "; ".join(_bool(x) for x in flags) + "]",
+            "pool_get_under_write_guard": _bool(bool(g) and bool(re.search(_WRITE, g.code)) and not re.search(r"\.\s*read\s*\(\s*\)\s*\.\s*await\b", g.code))}
+
+
+item(rel, [("pool_reap_atomic_under_write_guard", "list bool", "[]"), ("pool_get_under_write_guard", "bool", "false")], _pool_atomic)
+rel = "src/session/session.rs"
+emit(f"(* {rel}: the outstanding request and its response baseline are recorded BEFORE the HeartRequest is written, the baseline being the counter value loaded at the wake *)")
+
+
+def _hb_baseline():
+    hb = heartbeat_task()
+    if not hb or not hb["out"] or not hb["cur"]:
+        return {"hb_baseline_before_write": "false"}
+    h = hb["v"]
+    rec = [m.start() for m in h.finditer(r"\b%s\s*=\s*Some\s*\(" % re.escape(hb["out"]))]
+    good = h.search(r"\b%s\s*=\s*Some\s*\(\s*\(\s*(?:tokio\s*::\s*time\s*::\s*)?Instant\s*::\s*now\s*\(\s*\)\s*,\s*%s\s*\)\s*\)" % (re.escape(hb["out"]), re.escape(hb["cur"])))
+    hr = h.search(r"\bCommand\s*::\s*HeartRequest\b")
+    i_wr = -1
+    if hr:
+        calls = [m for m in h.finditer(r"\.\s*write_(?:control_)?frame\s*\(") if m.start() < hr.start() <= match_close(h.code, m.end() - 1)]
+        if calls:
+            i_wr = calls[-1].start()
+        else:
+            lm = [m for m in h.finditer(r"\blet\s+(%s)\s*(?::[^=;]+)?=" % _ID) if m.end() <= hr.start() and ";" not in h.code[m.end():hr.start()]]
+            w = h.search(r"\.\s*write_(?:control_)?frame\s*\(\s*%s\b" % re.escape(lm[-1].group(1)), hr.end()) if lm else None
+            i_wr = w.start() if w else -1
+    loads = len(re.findall(r"\.\s*responses\s*\.\s*load\s*\(", h.code))
+    return {"hb_baseline_before_write": _bool(bool(good) and len(rec) == 1 and 0 <= good.start() < i_wr and loads == 1)}
+
+
+item(rel, [("hb_baseline_before_write", "bool", "false")], _hb_baseline)
 
 # ---------------------------------------------------------------- parsers package (C07/C15): UDP-over-TCP glue
 emit()
 emit("(* parsers package: src/server/udp_proxy.rs, src/client/udp_client.rs *)")
-_t = strip_comments(src("src/server/udp_proxy.rs"))
-_follows = bool(re.search(r'is_ipv6\(\)\s*\{\s*"\[::\]:0"\s*\}\s*else\s*\{\s*"0\.0\.0\.0:0"\s*\}', _t)) and \
-    bool(re.search(r'UdpSocket::bind\(bind_addr\)', _t)) and not re.search(r'UdpSocket::bind\("', _t)
-emit(f"Definition udp_server_bind_follows_target : bool := {'true' if _follows else 'false'}.")
-def _empty_ends(rel):
-    t = strip_comments(src(rel))
-    m = re.search(r"async fn stream_to_udp\(.*?\n\}\n", t, re.S)
-    if not m:
-        problems.append(f"{rel}: stream_to_udp not found")
-        return "true"
-    return "true" if re.search(r"is_empty\(\)\s*\{[^}]*break\s*;", m.group(0), re.S) else "false"
-emit(f"Definition udp_empty_datagram_ends_server : bool := {_empty_ends('src/server/udp_proxy.rs')}.")
-emit(f"Definition udp_empty_datagram_ends_client : bool := {_empty_ends('src/client/udp_client.rs')}.")
+rel = "src/server/udp_proxy.rs"
+
+
+def _udp_bind():
+    s = S(rel)
+    v = V(s.mcode, s.mtext, s)
+    binds = [m for m in v.finditer(r"\bUdpSocket\s*::\s*bind\s*\(")]
+    ok = bool(binds)
+    for m in binds:
+        a = call_args(v, m.end() - 1)
+        f = enclosing_fn(s, m.start())
+        env = local_env(f)
+        if len(a) != 1 or not re.fullmatch(_ID, a[0]) or a[0] not in env:
+            ok = False
+            continue
+        e = env[a[0]]
+        ecode = re.sub(r'"[^"]*"', lambda k: '"' + "~" * (len(k.group(0)) - 2) + '"', e)
+        v6 = v4 = None
+        m1 = re.fullmatch(r"if\s+(!?)\s*\w+\s*\.\s*is_ipv([46])\s*\(\s*\)\s*\{([^{}]*)\}\s*else\s*\{([^{}]*)\}", ecode, re.S)
+        if m1:
+            t = re.fullmatch(r"if\s+(!?)\s*\w+\s*\.\s*is_ipv([46])\s*\(\s*\)\s*\{([^{}]*)\}\s*else\s*\{([^{}]*)\}", e, re.S)
+            then6 = (t.group(2) == "6") != bool(t.group(1))
+            v6, v4 = (t.group(3), t.group(4)) if then6 else (t.group(4), t.group(3))
+        else:
+            m2 = re.fullmatch(r"match\s+\*?\s*&?\s*\w+\s*\{(.*)\}", e, re.S)
+            if m2:
+                for pat, rhs in match_arms(V(e, e), e.find("{")):
+                    pat = re.sub(r"\s+", "", pat)
+                    if re.fullmatch(r"(?:std::net::)?SocketAddr::V6\((?:_|\.\.|_\w*)\)", pat):
+                        v6 = rhs
+                    elif re.fullmatch(r"(?:std::net::)?SocketAddr::V4\((?:_|\.\.|_\w*)\)", pat):
+                        v4 = rhs
+        b6 = try_ev(ev_bytes, v6.strip(), rel) if v6 else None
+        b4 = try_ev(ev_bytes, v4.strip(), rel) if v4 else None
+        ok = ok and b6 == b"[::]:0" and b4 == b"0.0.0.0:0"
+    return {"udp_server_bind_follows_target": _bool(ok)}
+
+
+item(rel, [("udp_server_bind_follows_target", "bool", "false")], _udp_bind)
+
+
+def _empty_ends(rel, name):
+    def run():
+        f = fn_view(S(rel), "stream_to_udp")
+        if not f:
+            problem("stream_to_udp not found", rel, [name])
+            return {name: "true"}
+        ends = False
+        for cond, blk, pos in iter_ifs(f):
+            c = squash(cond.code)
+            if (re.search(r"\.is_empty\(\)", c) and not c.startswith("!")) or re.search(r"\.len\(\)==0\b|\b0==\w+\.len\(\)|\.len\(\)<1\b", c):
+                ends = ends or bool(re.search(r"\bbreak\b|\breturn\b", blk.code))
+        return {name: _bool(ends)}
+    item(rel, [(name, "bool", "true")], run)
+
+
+_empty_ends("src/server/udp_proxy.rs", "udp_empty_datagram_ends_server")
+_empty_ends("src/client/udp_client.rs", "udp_empty_datagram_ends_client")
 
 # ---------------------------------------------------------------- parsers package (C06): shape of the authentication gate
 emit()
 emit("(* parsers package: src/util/auth.rs authenticate_client, src/server/server.rs handle_connection *)")
-_t = strip_comments(src("src/util/auth.rs"))
-_m = re.search(r"pub async fn authenticate_client.*?\n\}\n", _t, re.S)
-_body = _m.group(0) if _m else ""
-if not _m:
-    problems.append("src/util/auth.rs: authenticate_client not found")
-_hl = re.search(r"let\s+mut\s+password_hash\s*=\s*\[0u8;\s*([0-9_]+)\]\s*;\s*reader\.read_exact\(&mut password_hash\)\.await\?;", _body)
-emit(f"Definition auth_hash_len : N := {N(eval_int(_hl.group(1)) if _hl else None)}.")
-if not _hl:
-    problems.append("src/util/auth.rs: the 32-byte hash read not found")
-# the received array is compared as a whole with the expected array by `!=`, and a mismatch returns AuthenticationFailed
-_cmp = re.search(r"if\s+password_hash\s*!=\s*\*expected_password_hash\s*\{\s*return\s+Err\(AnyTlsError::AuthenticationFailed\);\s*\}", _body)
-_other = re.findall(r"expected_password_hash", _body)
-emit(f"Definition auth_compares_whole_arrays : bool := {'true' if (_cmp and len(_other) == 2) else 'false'}.")
-_t = strip_comments(src("src/server/server.rs"))
-_m = re.search(r"async fn handle_connection\(.*?\n\}\n", _t, re.S)
-_body = _m.group(0) if _m else ""
-if not _m:
-    problems.append("src/server/server.rs: handle_connection not found")
-# the result of authenticate_client is propagated directly with `.await?` as a statement of its own (no wrapper such as
-# timeout/select, no branch in which the function continues without an Ok), exactly one call, before the session is built
-_direct = re.search(r"[;{]\s*authenticate_client\(\s*&mut reader,\s*&password_hash,\s*&padding\s*\)\s*\.await\?;", _body)
-_calls = re.findall(r"authenticate_client\s*\(", _body)
-_sess = _body.find("Session::new_server")
-_gate = bool(_direct) and len(_calls) == 1 and _sess > 0 and _direct.end() < _sess
-emit(f"Definition auth_result_propagated_directly : bool := {'true' if _gate else 'false'}.")
+rel = "src/util/auth.rs"
 
+
+def _auth():
+    names = ["auth_hash_len", "auth_compares_whole_arrays"]
+    s = S(rel)
+    f = fn_view(s, "authenticate_client", inline=False)
+    if not f:
+        problem("authenticate_client not found", rel, names)
+        return {}
+    out = {}
+    env = local_env(f)
+    # the first thing read is an array of <const> bytes, read whole with read_exact
+    hm = f.search(r"\blet\s+mut\s+(%s)\s*(?::[^=;]+)?=\s*\[\s*0(?:u8)?\s*;([^\]]+)\]\s*;\s*\w+\s*\.\s*read_exact\s*\(\s*&\s*mut\s+(%s)\s*\)\s*\.\s*await\s*\?\s*;" % (_ID, _ID))
+    first_read = f.search(r"\.\s*read\w*\s*\(")
+    n = try_ev(ev_int, f.text[hm.start(2):hm.end(2)], rel, env) if hm and hm.group(1) == hm.group(3) else None
+    if n is None or (first_read and first_read.start() < hm.start()):
+        problem("the 32-byte hash read not found", rel, names[:1])
+    else:
+        out["auth_hash_len"] = str(n)
+    # the received array is compared as a whole with the expected array, and a mismatch returns AuthenticationFailed
+    params = [p.strip().split(":")[0].strip() for p, _ in split_top(f.code[f.code.find("(") + 1:match_close(f.code, f.code.find("("))], [","])]
+    expected = params[1] if len(params) > 1 else None
+    whole = False
+
+    def strip_ref(t):
+        return re.sub(r"^[*&]+", "", t)
+    helpers = {nm: (a, bo, bc) for nm, a, bo, bc, p in fn_spans(s.mcode) if not p}
+    for cond, blk, pos in iter_ifs(f) if hm and expected else []:
+        if not re.match(r"\{\s*return\s+Err\s*\(\s*(?:AnyTlsError\s*::\s*)?AuthenticationFailed\s*\)\s*;?\s*\}", blk.code):
+            continue
+        c = parse_cmp(cond.code)
+        if c and c[1] == "!=" and {strip_ref(c[0]), strip_ref(c[2])} == {hm.group(1), expected}:
+            whole = True
+        cm = re.fullmatch(r"\s*(!?)\s*(%s)\s*\(([^()]*)\)\s*" % _ID, cond.code)
+        if cm and cm.group(2) in helpers:         # one level: a private helper that is itself one whole-array comparison
+            a, bo, bc = helpers[cm.group(2)]
+            sig = s.mcode[a:bo]
+            ps = [p.strip().split(":")[0].strip() for p, _ in split_top(sig[sig.find("(") + 1:match_close(sig, sig.find("("))], [","])]
+            args = [strip_ref(x.strip()) for x in cm.group(3).split(",")]
+            hc = parse_cmp(re.sub(r"^\{\s*(?:return\s+)?|;?\s*\}\s*$", "", s.mcode[bo:bc + 1].strip()))
+            if hc and len(ps) == 2 and set(args) == {hm.group(1), expected} and {strip_ref(hc[0]), strip_ref(hc[2])} == set(ps) \
+                    and hc[1] == ("==" if cm.group(1) else "!="):
+                whole = True
+    uses = len(re.findall(r"(?<![A-Za-z0-9_])%s(?![A-Za-z0-9_])" % re.escape(expected), f.code)) if expected else 0
+    out["auth_compares_whole_arrays"] = _bool(whole and uses == 2)
+    return out
+
+
+item(rel, [("auth_hash_len", "N", "missing_N"), ("auth_compares_whole_arrays", "bool", "false")], _auth)
+rel = "src/server/server.rs"
+
+
+def _auth_gate():
+    f = fn_view(S(rel), "handle_connection")
+    if not f:
+        problem("handle_connection not found", rel, ["auth_result_propagated_directly"])
+        return {"auth_result_propagated_directly": "false"}
+    # the result of authenticate_client is propagated directly with `.await?` as a statement of its own at the top level of
+    # the function (no wrapper such as timeout/select, no branch in which the function continues without an Ok), exactly one
+    # call, before the session is built
+    calls = [m for m in f.finditer(r"\bauthenticate_client\s*\(")]
+    sess = f.search(r"\bSession\s*::\s*new_server\b")
+    gate = False
+    if len(calls) == 1 and sess:
+        m = calls[0]
+        close = match_close(f.code, m.end() - 1)
+        sig_end = f.code.find("{", match_close(f.code, f.code.find("(")))
+        depth = f.code[sig_end:m.start()].count("{") - f.code[sig_end:m.start()].count("}")
+        before = f.code[:m.start()].rstrip()
+        stmt_start = before.endswith((";", "{", "}")) or bool(re.search(r"[;{}]\s*let\s+(?:\(\s*\)|_\w*)\s*(?::\s*\(\s*\)\s*)?=$", before))
+        after = re.match(r"\s*\.\s*await\s*(?:\.\s*(?:inspect_err|map_err)\s*\((?:[^()]|\([^()]*\))*\)\s*)*\?\s*;", f.code[close + 1:])
+        gate = depth == 1 and stmt_start and bool(after) and close < sess.start()
+    return {"auth_result_propagated_directly": _bool(gate)}
+
+
+item(rel, [("auth_result_propagated_directly", "bool", "false")], _auth_gate)
+
+
+# ======================================================================================== write
+for rel_, s_ in list(_SRCS.items()):
+    if not s_.ok:
+        problem(f"cannot read ({s_.err})", rel_, [n for n, fs in defined.items() if rel_ in fs])
 text = "\n".join(lines) + "\n"
-os.makedirs(os.path.dirname(OUT), exist_ok=True)
+os.makedirs(os.path.dirname(os.path.abspath(OUT)), exist_ok=True)
 old = None
 try:
     with open(OUT) as f:
